@@ -23,6 +23,7 @@ from __future__ import annotations
 import ast
 from dataclasses import dataclass, field
 
+from core.guards import FALSE as FALSE_F
 from core.guards import Formula, atom, atoms_of, conds_formula, f_and, f_not, f_or, implies, show, to_formula
 from core.inline_stmt import Inliner
 from core.loader import AnalysisError, FuncInfo, Repo, ancestors, norm, own_nodes, parent, set_parents
@@ -57,6 +58,7 @@ class Event:
     elt: ast.AST | None = None  # element expression node
     nvar: str | None = None  # neighbour variable of the neighbour iteration the event sits in
     receiver: str = ""
+    key: ast.AST | None = None  # `R[key].append(..)` / `R.setdefault(key, []).append(..)`: the entry of the result the element goes to
 
 
 @dataclass
@@ -90,6 +92,19 @@ class SubtreeSite:
     loop: ast.AST | None  # the For / comprehension binding x
     guard: Formula | None = None
     extra: list = field(default_factory=list)  # filters of a filtered copy of the collection, renamed to x
+    fills: list = field(default_factory=list)  # statements that put the looked-up sub-tree(s) into `target` when that is not the statement of the call
+
+
+@dataclass
+class NodeMap:
+    """`D[n] = o` for every node n of get_all_submodules_of(graph, o), o ranging over a collection of filters (or one filter): a
+    lookup from graph node to the object(s) whose sub-tree holds it."""
+
+    var: str
+    collection: str | None
+    param: str | None
+    single: bool  # one object per node (`D[n] = o` overwrites) as opposed to all of them (`D.setdefault(n, []).append(o)`)
+    store: ast.AST
 
 
 @dataclass
@@ -128,6 +143,8 @@ class SearchModel:
     subject_param: str | None = None
     object_param: str | None = None
     subst: object = None  # substitution used for the guards (boolean locals, boolean helpers, canonical hierarchy atom)
+    node_maps: dict[str, NodeMap] = field(default_factory=dict)
+    subtree_maps: dict[str, str] = field(default_factory=dict)  # T -> collection parameter, for `T = {o: get_all_submodules_of(graph, o) for o in P}`
 
     def hier(self, nvar: str | None = None) -> Formula:
         """Canonical atom 'the edge between the current node and the neighbour is a hierarchy edge' (correctly oriented)."""
@@ -156,11 +173,36 @@ class ViewInfo(FuncInfo):
 def _allow(caller: FuncInfo, callee: FuncInfo) -> bool:
     """What is substituted into the view: module-level helpers. Methods (graph accessors, filter properties) and the public
     search functions are the vocabulary of the rules and stay calls."""
-    if callee.cls is not None or callee.outer is not None:
+    if callee.outer is not None:
+        return False
+    if callee.cls is not None and not _helper_class(callee.cls):
         return False
     if callee.module.name == SEARCHES and not callee.name.startswith("_"):
         return False
+    if _self_recursive(callee):
+        return False  # one unrolled level says nothing; _recursion_to_worklists rewrites the walk as a whole
     return True
+
+
+_VOCABULARY_CLASSES = {"AbstractGraph", "ModuleFilter", "Module", "ModuleGroup"}
+
+
+def _helper_class(ci) -> bool:
+    """A class that only organises a search (a walk object owning the worklist, a record): private, or defined next to the
+    searches - never the graph or the module filters, whose methods are the vocabulary of the rules."""
+    if ci.name in _VOCABULARY_CLASSES or any(norm(b).split(".")[-1] in _VOCABULARY_CLASSES | {"ABC", "Protocol"} for b in ci.base_exprs):
+        return False
+    return ci.name.startswith("_") or ci.module.name == SEARCHES
+
+
+def _self_calls(f: FuncInfo) -> list[ast.Call]:
+    if isinstance(f.node, ast.Lambda):
+        return []
+    return [c for c in own_nodes(f.node) if isinstance(c, ast.Call) and isinstance(c.func, ast.Name) and c.func.id == f.name and f.cls is None]
+
+
+def _self_recursive(f: FuncInfo) -> bool:
+    return bool(_self_calls(f))
 
 
 def _ordered_names(fn: ast.AST) -> list[ast.Name]:
@@ -219,6 +261,267 @@ def _eliminate_aliases(fn: ast.AST, params: set[str]) -> None:
                 for a in ast.walk(fn):
                     if isinstance(a, ast.ExceptHandler) and a.name == y:
                         a.name = x
+                blk.remove(st)
+                if not blk:
+                    blk.append(ast.copy_location(ast.Pass(), st))
+                done = True
+                break
+            if done:
+                break
+        if not done:
+            return
+
+
+def _bool_const(e: ast.AST) -> bool | None:
+    return e.value if isinstance(e, ast.Constant) and isinstance(e.value, bool) else None
+
+
+class _FoldBools(ast.NodeTransformer):
+    """Boolean constants the substitution of a helper called with a literal flag leaves behind (`_search(.., forward=True)`):
+    `X if True else Y`, `True and c`, `not False`, `if False: A else: B`, `elif False:` are reduced to what is evaluated."""
+
+    def visit_Lambda(self, n):  # noqa: N802
+        return n
+
+    def visit_UnaryOp(self, n):  # noqa: N802
+        self.generic_visit(n)
+        v = _bool_const(n.operand)
+        if isinstance(n.op, ast.Not) and v is not None:
+            return ast.copy_location(ast.Constant(value=not v), n)
+        return n
+
+    def visit_BoolOp(self, n):  # noqa: N802
+        self.generic_visit(n)
+        is_and = isinstance(n.op, ast.And)
+        vals = []
+        for x in n.values:
+            v = _bool_const(x)
+            if v is None:
+                vals.append(x)
+            elif v != is_and:  # False in an `and`, True in an `or`: decides; what follows is not evaluated
+                if not vals:
+                    return ast.copy_location(ast.Constant(value=v), n)
+                vals.append(x)
+                break
+            # True in an `and` / False in an `or`: neutral (unless it is the last operand and thereby the value)
+        if not vals:
+            return ast.copy_location(ast.Constant(value=is_and), n)
+        if len(vals) == 1:
+            return vals[0]
+        n.values = vals
+        return n
+
+    def visit_IfExp(self, n):  # noqa: N802
+        self.generic_visit(n)
+        v = _bool_const(n.test)
+        if v is None:
+            return n
+        return n.body if v else n.orelse
+
+    def visit_If(self, n):  # noqa: N802
+        self.generic_visit(n)
+        v = _bool_const(n.test)
+        if v is None:
+            return n
+        keep = n.body if v else n.orelse
+        return keep or None
+
+    def visit_While(self, n):  # noqa: N802
+        self.generic_visit(n)
+        if _bool_const(n.test) is False:
+            return n.orelse or None
+        return n
+
+
+def _record_fields(repo: Repo, mod, func: ast.AST) -> tuple[list[str], bool] | None:
+    """(field names in positional order, the record can be unpacked like a tuple) for a call target that is a plain record class of
+    the library: a `typing.NamedTuple` class, a `collections.namedtuple(..)` constant, or a dataclass without hand-written
+    construction hooks."""
+    if not isinstance(func, (ast.Name, ast.Attribute)):
+        return None
+    fq = repo.resolve_name(mod, func)
+    ci = repo.classes.get(fq) if fq else None
+    if ci is None and isinstance(func, ast.Name):
+        ci = mod.classes.get(func.id)
+    if ci is not None:
+        hooks = {"__init__", "__new__", "__post_init__", "__iter__", "__getattr__", "__getattribute__", "__getitem__"}
+        if hooks & set(ci.methods):
+            return None
+        is_nt = any(norm(b).split(".")[-1] == "NamedTuple" for b in ci.base_exprs)
+        if is_nt and len(ci.base_exprs) == 1:
+            return list(ci.ann_attrs), True
+        if ci.is_dataclass and not ci.base_exprs:
+            if any(isinstance(d, ast.Call) and any(k.arg in ("init", "kw_only") for k in d.keywords) for d in ci.node.decorator_list):
+                return None
+            return list(ci.ann_attrs), False
+        return None
+    # X = namedtuple("X", "a b") / namedtuple("X", ["a", "b"])
+    if isinstance(func, ast.Name):
+        val = mod.constants.get(func.id)
+        if isinstance(val, ast.Call) and norm(val.func).split(".")[-1] == "namedtuple" and len(val.args) >= 2 and not val.keywords:
+            spec = val.args[1]
+            if isinstance(spec, ast.Constant) and isinstance(spec.value, str):
+                return spec.value.replace(",", " ").split(), True
+            if isinstance(spec, (ast.List, ast.Tuple)) and all(isinstance(x, ast.Constant) and isinstance(x.value, str) for x in spec.elts):
+                return [x.value for x in spec.elts], True
+    return None
+
+
+def _unpack_records(repo: Repo, view: FuncInfo) -> None:
+    """Records that only carry values from a producer to a consumer are taken apart (what a generator's
+    `yield Stop(module, imported)` and its consumer's `for importer, importees in walk(..)` / `stop.module` become once the
+    generator is substituted):
+
+        a, b = Stop(x, y)          ->  a, b = (x, y)
+        s = Stop(x, y) .. s.module ->  s__module = x; s__imported = y .. s__module     (every read of s is a field read)"""
+    fn = view.node
+    set_parents(fn)
+    taken = {n.id for n in ast.walk(fn) if isinstance(n, ast.Name)}
+
+    def fields_of(call: ast.AST) -> tuple[list[str], bool, list[ast.expr]] | None:
+        if not (isinstance(call, ast.Call) and not any(isinstance(a, ast.Starred) for a in call.args) and all(k.arg for k in call.keywords)):
+            return None
+        src = getattr(call, "_src", None)
+        mod = src[0].module if src is not None else view.module
+        got = _record_fields(repo, mod, call.func)
+        if got is None:
+            return None
+        names, iterable = got
+        vals: dict[str, ast.expr] = dict(zip(names, call.args))
+        for k in call.keywords:
+            vals[k.arg] = k.value
+        if len(call.args) > len(names) or set(vals) != set(names):
+            return None  # defaults in play: not taken apart
+        return names, iterable, [vals[n] for n in names]
+
+    for blk in list(_blocks(fn)):
+        i = 0
+        while i < len(blk):
+            st = blk[i]
+            i += 1
+            if not (isinstance(st, ast.Assign) and len(st.targets) == 1):
+                continue
+            got = fields_of(st.value)
+            if got is None:
+                continue
+            names, iterable, vals = got
+            tgt = st.targets[0]
+            if isinstance(tgt, (ast.Tuple, ast.List)) and iterable and len(tgt.elts) == len(vals) and not any(isinstance(t, ast.Starred) for t in tgt.elts):
+                st.value = ast.copy_location(ast.Tuple(elts=vals, ctx=ast.Load()), st.value)
+                continue
+            if not isinstance(tgt, ast.Name):
+                continue
+            s_ = tgt.id
+            if sum(1 for n in ast.walk(fn) if isinstance(n, ast.Name) and n.id == s_ and isinstance(n.ctx, (ast.Store, ast.Del))) != 1:
+                continue
+            reads = [n for n in ast.walk(fn) if isinstance(n, ast.Name) and n.id == s_ and isinstance(n.ctx, ast.Load)]
+            proj: list[tuple[ast.AST, int]] = []
+            ok = True
+            for r in reads:
+                par = parent(r)
+                if isinstance(par, ast.Attribute) and par.value is r and par.attr in names and isinstance(par.ctx, ast.Load):
+                    proj.append((par, names.index(par.attr)))
+                elif iterable and isinstance(par, ast.Subscript) and par.value is r and isinstance(par.slice, ast.Constant) and isinstance(par.slice.value, int) and -len(names) <= par.slice.value < len(names) and isinstance(par.ctx, ast.Load):
+                    proj.append((par, par.slice.value % len(names)))
+                else:
+                    ok = False
+                    break
+            if not ok or not proj:
+                continue
+            locs = []
+            for n_ in names:
+                new = f"{s_}__{n_}"
+                while new in taken:
+                    new += "_"
+                taken.add(new)
+                locs.append(new)
+            for node_, k in proj:
+                par = parent(node_)
+                ref = ast.copy_location(ast.Name(id=locs[k], ctx=ast.Load()), node_)
+                for fld, val in ast.iter_fields(par):
+                    if val is node_:
+                        setattr(par, fld, ref)
+                    elif isinstance(val, list):
+                        for j, x in enumerate(val):
+                            if x is node_:
+                                val[j] = ref
+            new_stmts = [ast.copy_location(ast.Assign(targets=[ast.Name(id=l_, ctx=ast.Store())], value=v_), st) for l_, v_ in zip(locs, vals)]
+            blk[i - 1:i] = new_stmts
+            i += len(new_stmts) - 1
+            set_parents(fn)
+
+
+def _fold_constants(fn: ast.AST) -> None:
+    # only when a literal flag is in play: `while True:` worklists and the like stay as written
+    if not any(isinstance(x, (ast.If, ast.IfExp)) and _bool_const(x.test) is not None or (isinstance(x, ast.BoolOp) and any(_bool_const(v_) is not None for v_ in x.values)) for x in ast.walk(fn)):
+        return
+    folder = _FoldBools()
+
+    def block(stmts: list[ast.stmt]) -> list[ast.stmt]:
+        out: list[ast.stmt] = []
+        for st in stmts:
+            got = folder.visit(st)
+            if got is None:
+                continue
+            out += got if isinstance(got, list) else [got]
+        return out
+
+    fn.body = block(fn.body) or [ast.Pass()]
+    for n in ast.walk(fn):
+        for fld in ("body", "orelse", "finalbody"):
+            blk = getattr(n, fld, None)
+            if isinstance(blk, list) and not blk and fld == "body" and isinstance(n, (ast.For, ast.While, ast.If, ast.With, ast.Try, ast.ExceptHandler)):
+                n.body = [ast.Pass()]
+
+
+def _propagate_copies(fn: ast.AST, params: set[str]) -> None:
+    """`x = y` (two local names) where x is bound only here, every read of x comes later inside the block the statement is in, and
+    y is never bound after the statement: x is y wherever it is read - the reads are renamed and the statement dropped.  (What a
+    consumer's `for x in gen(..)` leaves behind once the generator's `yield y` is substituted while the generator goes on
+    using y.)"""
+    for _ in range(30):
+        set_parents(fn)
+        names = _ordered_names(fn)
+        pos = {id(n): i for i, n in enumerate(names)}
+        done = False
+        for blk in _blocks(fn):
+            for st in blk:
+                if not (isinstance(st, ast.Assign) and len(st.targets) == 1 and isinstance(st.targets[0], ast.Name) and isinstance(st.value, ast.Name)):
+                    continue
+                x, y = st.targets[0].id, st.value.id
+                if x == y or x in params:
+                    continue
+                if sum(1 for n in names if n.id == x and isinstance(n.ctx, (ast.Store, ast.Del))) != 1:
+                    continue
+                if any(isinstance(a, (ast.ExceptHandler)) and a.name in (x, y) for a in ast.walk(fn)) or any(isinstance(a, (ast.Global, ast.Nonlocal)) for a in ast.walk(fn)):
+                    continue
+                here = pos[id(st.value)]
+
+                def shadowed(n: ast.Name, name: str) -> bool:
+                    """the name is a parameter of an enclosing lambda: another variable"""
+                    return any(isinstance(a, ast.Lambda) and any(p_.arg == name for p_ in [*a.args.posonlyargs, *a.args.args, *a.args.kwonlyargs]) for a in ancestors(n))
+
+                reads = [n for n in names if n.id == x and isinstance(n.ctx, ast.Load) and not shadowed(n, x)]
+                if not reads or any(pos[id(n)] < here for n in reads):
+                    continue
+                if any(shadowed(n, y) for n in reads):
+                    continue  # a read inside a lambda with a parameter called y: renaming would capture
+                if any(n.id == y and isinstance(n.ctx, (ast.Store, ast.Del)) and pos[id(n)] > here for n in names):
+                    continue
+                # every read sits in the block of the statement (or deeper), after it; not inside a nested function
+                inside = True
+                for n in reads:
+                    chain = [n, *ancestors(n)]
+                    if any(isinstance(a, (ast.FunctionDef, ast.AsyncFunctionDef, ast.Lambda)) and a is not fn for a in chain):
+                        inside = False
+                        break
+                    if not any(any(c is b for b in blk) for c in chain):
+                        inside = False
+                        break
+                if not inside:
+                    continue
+                for n in reads:
+                    n.id = y
                 blk.remove(st)
                 if not blk:
                     blk.append(ast.copy_location(ast.Pass(), st))
@@ -454,10 +757,14 @@ def _hoist_helper_calls(repo: Repo, view: FuncInfo) -> bool:
     taken = {n.id for n in ast.walk(view.node) if isinstance(n, ast.Name)}
     counter = [0]
 
-    def fresh() -> str:
+    def fresh(stem: str = "") -> str:
+        # named after the helper whose result it holds, so that reports can be read against the source
+        if stem and f"result_of_{stem}" not in taken:
+            taken.add(f"result_of_{stem}")
+            return f"result_of_{stem}"
         while True:
             counter[0] += 1
-            name = f"hoisted{counter[0]}"
+            name = f"result{counter[0]}_of_{stem}" if stem else f"hoisted{counter[0]}"
             if name not in taken:
                 taken.add(name)
                 return name
@@ -498,7 +805,7 @@ def _hoist_helper_calls(repo: Repo, view: FuncInfo) -> bool:
                 if got is None:
                     break
                 fld, call, par, where_ = got
-                tmp = fresh()
+                tmp = fresh(call.func.id.strip("_") if isinstance(call.func, ast.Name) else "")
                 assign = ast.copy_location(ast.Assign(targets=[ast.Name(id=tmp, ctx=ast.Store())], value=call), st)
                 ref = ast.copy_location(ast.Name(id=tmp, ctx=ast.Load()), call)
                 if par is None:
@@ -516,11 +823,682 @@ def _hoist_helper_calls(repo: Repo, view: FuncInfo) -> bool:
     return changed
 
 
-def _inline_generator_loops(repo: Repo, view: FuncInfo) -> bool:
-    """`for v in gen(args): BODY` where `gen` is a small generator helper whose `yield e` statements end their loop iteration:
-    the helper's loops with `v = e; BODY` in place of each yield."""
+def _local_objects(repo: Repo, view: FuncInfo) -> dict:
+    """x -> ClassInfo for locals bound exactly once, by `x = C(..)` with C a helper class (a walk object, a record with methods)."""
+    fn = view.node
+    stores: dict[str, int] = {}
+    for n in ast.walk(fn):
+        if isinstance(n, ast.Name) and isinstance(n.ctx, (ast.Store, ast.Del)):
+            stores[n.id] = stores.get(n.id, 0) + 1
+    out: dict = {}
+    for n in ast.walk(fn):
+        tgt = val = None
+        if isinstance(n, ast.Assign) and len(n.targets) == 1 and isinstance(n.targets[0], ast.Name):
+            tgt, val = n.targets[0].id, n.value
+        elif isinstance(n, ast.AnnAssign) and isinstance(n.target, ast.Name) and n.value is not None:
+            tgt, val = n.target.id, n.value
+        if tgt is None or stores.get(tgt) != 1 or tgt in view.param_names or not isinstance(val, ast.Call):
+            continue
+        ci = _class_of_call(repo, view, val)
+        if ci is not None and _helper_class(ci):
+            out[tgt] = ci
+    known = view.__dict__.get("objects") or {}
+    for k, v_ in known.items():
+        out.setdefault(k, v_)
+    return out
+
+
+def _method_of(repo: Repo, ci, name: str) -> FuncInfo | None:
+    """The method a call on an instance of `ci` runs (own or inherited from another helper class)."""
+    try:
+        m = repo.lookup_method(ci, name)
+    except Exception:  # noqa: BLE001
+        m = ci.methods.get(name)
+    if m is not None and m.cls is not None and not _helper_class(m.cls):
+        return None
+    return m
+
+
+def _class_of_call(repo: Repo, view: FuncInfo, call: ast.Call):
+    if not isinstance(call.func, (ast.Name, ast.Attribute)):
+        return None
+    src = getattr(call, "_src", None)
+    mod = src[0].module if src is not None else view.module
+    fq = repo.resolve_name(mod, call.func)
+    ci = repo.classes.get(fq) if fq else None
+    if ci is None and isinstance(call.func, ast.Name):
+        ci = mod.classes.get(call.func.id)
+    return ci
+
+
+def _desugared_generator(f: FuncInfo) -> FuncInfo:
+    """The generator with every `yield from X` statement written as the loop it stands for: `for v in XS: if c: yield e` for a
+    generator expression / comprehension X, `for t in X: yield t` otherwise (X may be another generator helper, substituted in turn)."""
+    if isinstance(f.node, ast.Lambda) or not any(isinstance(n, ast.YieldFrom) for n in own_nodes(f.node)):
+        return f
+    cached = f.__dict__.get("_desugared")
+    if cached is not None:
+        return cached
+    node = _clone_src(f.node, f)
+    taken = {n.id for n in ast.walk(node) if isinstance(n, ast.Name)}
+
+    def block(stmts: list[ast.stmt]) -> list[ast.stmt]:
+        out: list[ast.stmt] = []
+        for st in stmts:
+            if isinstance(st, (ast.FunctionDef, ast.AsyncFunctionDef, ast.ClassDef)):
+                out.append(st)
+                continue
+            for fld in ("body", "orelse", "finalbody"):
+                blk = getattr(st, fld, None)
+                if isinstance(blk, list) and blk and isinstance(blk[0], ast.stmt):
+                    setattr(st, fld, block(blk))
+            if isinstance(st, ast.Expr) and isinstance(st.value, ast.YieldFrom):
+                x = st.value.value
+                src = x.args[0] if isinstance(x, ast.Call) and isinstance(x.func, ast.Name) and x.func.id in ("iter", "list", "tuple") and len(x.args) == 1 else x
+                if isinstance(src, (ast.GeneratorExp, ast.ListComp, ast.SetComp)) and not any(g.is_async for g in src.generators):
+                    body: list[ast.stmt] = [ast.copy_location(ast.Expr(value=ast.copy_location(ast.Yield(value=src.elt), st)), st)]
+                    for g in reversed(src.generators):
+                        for c in reversed(g.ifs):
+                            body = [ast.copy_location(ast.If(test=c, body=body, orelse=[]), st)]
+                        tgt = g.target
+                        for n in ast.walk(tgt):
+                            if isinstance(n, (ast.Name, ast.Tuple, ast.List)):
+                                n.ctx = ast.Store()
+                        body = [ast.copy_location(ast.For(target=tgt, iter=g.iter, body=body, orelse=[]), st)]
+                    out += body
+                else:
+                    tmp = "yielded"
+                    while tmp in taken:
+                        tmp += "_"
+                    taken.add(tmp)
+                    loop = ast.For(target=ast.Name(id=tmp, ctx=ast.Store()), iter=x, body=[ast.copy_location(ast.Expr(value=ast.copy_location(ast.Yield(value=ast.Name(id=tmp, ctx=ast.Load())), st)), st)], orelse=[])
+                    out.append(ast.copy_location(loop, st))
+                continue
+            out.append(st)
+        return out
+
+    node.body = block(node.body)
+    if any(isinstance(n, ast.YieldFrom) for n in own_nodes(node)):
+        f.__dict__["_desugared"] = f  # `x = yield from ..`: the value is used; left as it is
+        return f
+    ast.fix_missing_locations(node)
+    set_parents(node)
+    g = FuncInfo(name=f.name, qualname=f.qualname, node=node, module=f.module, cls=f.cls, decorators=list(f.decorators), outer=f.outer)
+    f.__dict__["_desugared"] = g
+    return g
+
+
+def _next_as_generator(ci) -> FuncInfo | None:
+    """The iterator protocol written by hand - `__iter__` returns self, `__next__` is `while <state>: .. return e` followed by
+    `raise StopIteration` - as the generator it is equivalent to when `__next__` keeps no local state between calls: every
+    `return e` ends an iteration of the while loop, so the next call re-enters the loop exactly where `yield e` would resume it."""
+    cached = ci.__dict__.get("_next_generator", 0)
+    if cached != 0:
+        return cached
+    ci.__dict__["_next_generator"] = None
+    it_, nx = ci.methods.get("__iter__"), ci.methods.get("__next__")
+    if it_ is None or nx is None or isinstance(nx.node, ast.Lambda):
+        return None
+    body_it = [s_ for s_ in it_.node.body if not (isinstance(s_, ast.Expr) and isinstance(s_.value, ast.Constant))]
+    self_it = it_.param_names[0] if it_.param_names else None
+    if not (len(body_it) == 1 and isinstance(body_it[0], ast.Return) and isinstance(body_it[0].value, ast.Name) and body_it[0].value.id == self_it):
+        return None
+    body = [s_ for s_ in nx.node.body if not (isinstance(s_, ast.Expr) and isinstance(s_.value, ast.Constant))]
+    if not (len(body) == 2 and isinstance(body[0], ast.While) and not body[0].orelse and isinstance(body[1], ast.Raise) and body[1].exc is not None and norm(body[1].exc).split("(")[0] == "StopIteration"):
+        return None
+    if len(nx.param_names) != 1 or nx.node.args.vararg or nx.node.args.kwarg:
+        return None
+    loop = body[0]
+    # returns with a value, each the last statement executed in an iteration of the loop (not inside an inner loop); nothing else leaves
+    ok = True
+
+    def check(stmts: list[ast.stmt], tail: bool, inner: bool) -> None:
+        nonlocal ok
+        for i, st in enumerate(stmts):
+            last = tail and i == len(stmts) - 1
+            if isinstance(st, ast.Return):
+                if st.value is None or inner or not last:
+                    ok = False
+            elif isinstance(st, ast.If):
+                check(st.body, last, inner)
+                check(st.orelse, last, inner)
+            elif isinstance(st, (ast.For, ast.While)):
+                check(st.body, False, True)
+                if st.orelse:
+                    ok = False
+            elif isinstance(st, (ast.Break, ast.Raise)) and not inner:
+                ok = False
+            elif isinstance(st, (ast.Try, ast.With, ast.FunctionDef, ast.AsyncFunctionDef, ast.ClassDef, ast.Global, ast.Nonlocal)):
+                ok = False
+            elif any(isinstance(n, (ast.Yield, ast.YieldFrom)) for n in ast.walk(st)):
+                ok = False
+
+    check(loop.body, True, False)
+    if not ok or not any(isinstance(n, ast.Return) for n in ast.walk(loop)):
+        return None
+    node = _clone(nx.node)
+
+    class R(ast.NodeTransformer):
+        def visit_Return(self, n: ast.Return):  # noqa: N802
+            return ast.copy_location(ast.Expr(value=ast.copy_location(ast.Yield(value=n.value), n)), n)
+
+        def visit_FunctionDef(self, n):  # noqa: N802
+            if n is node:
+                self.generic_visit(n)
+            return n
+
+        def visit_Lambda(self, n):  # noqa: N802
+            return n
+
+    node = R().visit(node)
+    node.body = [s_ for s_ in node.body if not isinstance(s_, ast.Raise)]
+    ast.fix_missing_locations(node)
+    set_parents(node)
+    gen = FuncInfo(name=nx.name, qualname=nx.qualname, node=node, module=nx.module, cls=nx.cls, decorators=list(nx.decorators), outer=nx.outer)
+    ci.__dict__["_next_generator"] = gen
+    return gen
+
+
+def _generator_target(repo: Repo, view: FuncInfo, it: ast.AST, objects: dict):
+    """(generator FuncInfo, call whose arguments bind its parameters) for an iterated expression: `gen(..)` of a module-level generator
+    helper, a local walk object `x` whose class has a generator `__iter__`, `iter(x)`, or a generator method `x.edges(..)`."""
+    if isinstance(it, ast.Call) and isinstance(it.func, ast.Name) and it.func.id == "iter" and len(it.args) == 1 and not it.keywords:
+        it = it.args[0]
+    if isinstance(it, ast.Name) and it.id in objects:
+        f = _method_of(repo, objects[it.id], "__iter__")
+        if f is not None and not _is_generator(f):
+            f = _next_as_generator(objects[it.id])
+        if f is not None and _is_generator(f) and not (f.node.args.vararg or f.node.args.kwarg):
+            return _desugared_generator(f), ast.copy_location(ast.Call(func=ast.Attribute(value=it, attr="__iter__", ctx=ast.Load()), args=[ast.copy_location(ast.Name(id=it.id, ctx=ast.Load()), it)], keywords=[]), it)
+        return None
+    if isinstance(it, ast.Call) and isinstance(it.func, ast.Attribute) and isinstance(it.func.value, ast.Name) and it.func.value.id in objects:
+        f = _method_of(repo, objects[it.func.value.id], it.func.attr)
+        if f is not None and _is_generator(f) and not f.is_staticmethod and not f.is_classmethod and not (f.node.args.vararg or f.node.args.kwarg):
+            recv = ast.copy_location(ast.Name(id=it.func.value.id, ctx=ast.Load()), it)
+            return _desugared_generator(f), ast.copy_location(ast.Call(func=it.func, args=[recv, *it.args], keywords=list(it.keywords)), it)
+        return None
+    if isinstance(it, ast.Call):
+        f = _helper_of(repo, view, it)
+        if f is not None and _is_generator(f):
+            return _desugared_generator(f), it
+    return None
+
+
+def _inline_object_methods(repo: Repo, view: FuncInfo) -> bool:
+    """Calls of plain methods on a local helper object: `x.m(a)` as a statement -> the method's body with `self` = x;
+    `x.m(a)` inside an expression, where the method is a single `return <expr>` -> that expression; `x = C(a, b)` -> the body of
+    `C.__init__` with `self` = x (the attributes stay `x.attr`; _scalarise_objects turns them into locals at the end)."""
+    objects = _local_objects(repo, view)
+    view.__dict__["objects"] = objects
+    if not objects:
+        return False
     changed = False
     taken = {n.id for n in ast.walk(view.node) if isinstance(n, ast.Name)}
+
+    def plain(f: FuncInfo | None) -> bool:
+        if f is None or isinstance(f.node, ast.Lambda) or _is_generator(f) or f.is_staticmethod or f.is_classmethod or f.is_property:
+            return False
+        a = f.node.args
+        if a.vararg or a.kwarg or not (a.posonlyargs or a.args):
+            return False
+        return not any(isinstance(n, (ast.FunctionDef, ast.AsyncFunctionDef, ast.ClassDef, ast.Global, ast.Nonlocal, ast.Try, ast.With, ast.Await)) for n in own_nodes(f.node))
+
+    def bind(f: FuncInfo, recv: str, call: ast.Call) -> dict[str, ast.expr] | None:
+        a = f.node.args
+        pos = [p_.arg for p_ in [*a.posonlyargs, *a.args]]
+        if any(isinstance(x, ast.Starred) for x in call.args) or any(k.arg is None for k in call.keywords) or len(call.args) > len(pos) - 1:
+            return None
+        b: dict[str, ast.expr] = {pos[0]: ast.Name(id=recv, ctx=ast.Load())}
+        for p_, x in zip(pos[1:], call.args):
+            b[p_] = x
+        for k in call.keywords:
+            b[k.arg] = k.value
+        for p_, d in zip(pos[len(pos) - len(a.defaults):], a.defaults):
+            b.setdefault(p_, _clone_src(d, f))
+        for p_, d in zip(a.kwonlyargs, a.kw_defaults):
+            if d is not None:
+                b.setdefault(p_.arg, _clone_src(d, f))
+        names = f.param_names
+        if set(b) != set(names):
+            return None
+        return b
+
+    def expand_stmt(f: FuncInfo, recv: str, call: ast.Call, at: ast.stmt) -> list[ast.stmt] | None:
+        """body of a method called for its effect (returns nothing, or the value is dropped by the caller)"""
+        b = bind(f, recv, call)
+        if b is None:
+            return None
+        body_src = [s_ for s_ in f.node.body if not (isinstance(s_, ast.Expr) and isinstance(s_.value, ast.Constant))]
+        # `return` only as the last statement, and without a value worth keeping
+        rets = [n for n in own_nodes(f.node) if isinstance(n, ast.Return)]
+        if any(r is not f.node.body[-1] for r in rets) or any(r.value is not None and not isinstance(r.value, ast.Constant) for r in rets):
+            return None
+        body = [_clone_src(s_, f) for s_ in body_src if not isinstance(s_, ast.Return)]
+        stored = {n.id for s_ in body for n in ast.walk(s_) if isinstance(n, ast.Name) and isinstance(n.ctx, ast.Store)}
+        prefix: list[ast.stmt] = []
+        ren: dict[str, str] = {}
+        for p_ in f.param_names:
+            val = b[p_]
+            if isinstance(val, ast.Name) and p_ not in stored:
+                ren[p_] = val.id
+            else:
+                new = p_ if p_ not in taken else f"{p_}__{f.name.strip('_')}"
+                while new in taken and new != p_:
+                    new += "_"
+                taken.add(new)
+                ren[p_] = new
+                prefix.append(ast.copy_location(ast.Assign(targets=[ast.Name(id=new, ctx=ast.Store())], value=val), at))
+        for l_ in sorted(stored - set(f.param_names)):
+            if l_ in taken:
+                new = f"{l_}__{f.name.strip('_')}"
+                while new in taken:
+                    new += "_"
+                taken.add(new)
+                ren[l_] = new
+            else:
+                taken.add(l_)
+        for s_ in body:
+            for n in ast.walk(s_):
+                if isinstance(n, ast.Name) and n.id in ren:
+                    n.id = ren[n.id]
+        return prefix + body
+
+    class ExprMethods(ast.NodeTransformer):
+        """`x.m(a)` where m is `return <expr>`: the expression, arguments substituted (only simple arguments, evaluated once)."""
+
+        def visit_Lambda(self, n):  # noqa: N802
+            return n
+
+        def visit_Call(self, n: ast.Call):  # noqa: N802
+            nonlocal changed
+            self.generic_visit(n)
+            if not (isinstance(n.func, ast.Attribute) and isinstance(n.func.value, ast.Name) and n.func.value.id in objects):
+                return n
+            f = _method_of(repo, objects[n.func.value.id], n.func.attr)
+            if not plain(f):
+                return n
+            body = [s_ for s_ in f.node.body if not (isinstance(s_, ast.Expr) and isinstance(s_.value, ast.Constant))]
+            if len(body) != 1 or not isinstance(body[0], ast.Return) or body[0].value is None:
+                return n
+            b = bind(f, n.func.value.id, n)
+            if b is None or not all(isinstance(x, (ast.Name, ast.Constant)) or (isinstance(x, ast.Attribute) and isinstance(x.value, ast.Name)) for x in b.values()):
+                return n
+            expr = _clone_src(body[0].value, f)
+
+            class Sub(ast.NodeTransformer):
+                def visit_Name(self, m_: ast.Name):  # noqa: N802
+                    if m_.id in b and isinstance(m_.ctx, ast.Load):
+                        return _clone(b[m_.id])
+                    return m_
+
+            changed = True
+            view.__dict__.setdefault("gen_inlined", []).append(f.fq)
+            return Sub().visit(expr)
+
+    def block(stmts: list[ast.stmt]) -> list[ast.stmt]:
+        nonlocal changed
+        out: list[ast.stmt] = []
+        for st in stmts:
+            for fld in ("body", "orelse", "finalbody"):
+                blk = getattr(st, fld, None)
+                if isinstance(blk, list) and blk and isinstance(blk[0], ast.stmt):
+                    setattr(st, fld, block(blk))
+            if isinstance(st, ast.Try):
+                for h in st.handlers:
+                    h.body = block(h.body)
+            # x.m(a) as a statement
+            if isinstance(st, ast.Expr) and isinstance(st.value, ast.Call) and isinstance(st.value.func, ast.Attribute) and isinstance(st.value.func.value, ast.Name) and st.value.func.value.id in objects:
+                f = _method_of(repo, objects[st.value.func.value.id], st.value.func.attr)
+                if plain(f):
+                    got = expand_stmt(f, st.value.func.value.id, st.value, st)
+                    if got is not None:
+                        out += got or [ast.copy_location(ast.Pass(), st)]
+                        changed = True
+                        view.__dict__.setdefault("gen_inlined", []).append(f.fq)
+                        continue
+            # x = C(a, b)
+            tgt = st.targets[0] if isinstance(st, ast.Assign) and len(st.targets) == 1 else getattr(st, "target", None) if isinstance(st, ast.AnnAssign) else None
+            if isinstance(tgt, ast.Name) and tgt.id in objects and isinstance(getattr(st, "value", None), ast.Call) and _class_of_call(repo, view, st.value) is objects[tgt.id]:
+                ci = objects[tgt.id]
+                init = _method_of(repo, ci, "__init__")
+                got = None
+                if init is not None and plain(init):
+                    got = expand_stmt(init, tgt.id, st.value, st)
+                elif init is None:
+                    got = _record_constructor(repo, view, ci, tgt.id, st.value, st)
+                if got is not None:
+                    out += got or [ast.copy_location(ast.Pass(), st)]
+                    changed = True
+                    if init is not None:
+                        view.__dict__.setdefault("gen_inlined", []).append(init.fq)
+                    continue
+            out.append(st)
+        return out
+
+    class Properties(ast.NodeTransformer):
+        """`x.prop` where prop is a property written as one `return <expr>`: the expression with `self` = x."""
+
+        def visit_Lambda(self, n):  # noqa: N802
+            return n
+
+        def visit_Attribute(self, n: ast.Attribute):  # noqa: N802
+            nonlocal changed
+            self.generic_visit(n)
+            if not (isinstance(n.value, ast.Name) and n.value.id in objects and isinstance(n.ctx, ast.Load)):
+                return n
+            f = _method_of(repo, objects[n.value.id], n.attr)
+            if f is None or not f.is_property or isinstance(f.node, ast.Lambda):
+                return n
+            body = [s_ for s_ in f.node.body if not (isinstance(s_, ast.Expr) and isinstance(s_.value, ast.Constant))]
+            if len(body) != 1 or not isinstance(body[0], ast.Return) or body[0].value is None or len(f.param_names) != 1:
+                return n
+            expr = _clone_src(body[0].value, f)
+            me = f.param_names[0]
+            for m_ in ast.walk(expr):
+                if isinstance(m_, ast.Name) and m_.id == me:
+                    m_.id = n.value.id
+            changed = True
+            view.__dict__.setdefault("gen_inlined", []).append(f.fq)
+            return ast.copy_location(expr, n)
+
+    view.node.body = block(view.node.body)
+    tr = ExprMethods()
+    view.node.body = [tr.visit(s_) for s_ in view.node.body]
+    pr = Properties()
+    view.node.body = [pr.visit(s_) for s_ in view.node.body]
+    return changed
+
+
+def _inline_local_callables(view: FuncInfo) -> bool:
+    """Callables that live inside the function itself - the callback protocol (`_walk(graph, start, on_import=record)` once `_walk`
+    is substituted leaves `record(node, child)` behind):
+
+      * a nested `def g(a, b): ..` bound once: `g(x, y)` as a statement -> its body; `v = g(x, y)` with one trailing `return e` -> body, `v = e`
+      * `g = lambda a, b: e` bound once: `g(x, y)` -> e
+      * `g = obj.method` (a bound method of a local, e.g. `submodules.add`) bound once: `g(x)` -> `obj.method(x)`
+
+    A definition none of whose uses is left is dropped."""
+    fn = view.node
+    set_parents(fn)
+    changed = False
+    taken = {n.id for n in ast.walk(fn) if isinstance(n, ast.Name)}
+    stores: dict[str, int] = {}
+    for n in ast.walk(fn):
+        if isinstance(n, ast.Name) and isinstance(n.ctx, (ast.Store, ast.Del)):
+            stores[n.id] = stores.get(n.id, 0) + 1
+        elif isinstance(n, (ast.FunctionDef, ast.AsyncFunctionDef, ast.ClassDef)) and n is not fn:
+            stores[n.name] = stores.get(n.name, 0) + 1
+    params = set(view.param_names)
+    defs: dict[str, ast.AST] = {}
+    for n in ast.walk(fn):
+        if isinstance(n, ast.FunctionDef) and n is not fn and stores.get(n.name) == 1 and n.name not in params and not n.decorator_list:
+            a = n.args
+            if a.vararg or a.kwarg or a.kwonlyargs or any(isinstance(x, (ast.Yield, ast.YieldFrom, ast.Await, ast.Global, ast.FunctionDef, ast.AsyncFunctionDef, ast.ClassDef)) for s_ in n.body for x in ast.walk(s_)):
+                continue
+            if any(isinstance(c, ast.Call) and isinstance(c.func, ast.Name) and c.func.id == n.name for c in ast.walk(n)):
+                continue  # recursive
+            defs[n.name] = n
+        elif isinstance(n, (ast.Assign, ast.AnnAssign)) and n.value is not None:
+            tgt = n.targets[0] if isinstance(n, ast.Assign) and len(n.targets) == 1 else getattr(n, "target", None)
+            if not (isinstance(tgt, ast.Name) and stores.get(tgt.id) == 1 and tgt.id not in params):
+                continue
+            if isinstance(n.value, ast.Lambda) and not (n.value.args.vararg or n.value.args.kwarg or n.value.args.kwonlyargs):
+                defs[tgt.id] = n.value
+            elif isinstance(n.value, ast.Attribute) and isinstance(n.value.value, ast.Name) and n.value.attr in (_GROW | _SHRINK | {"__contains__"}) and stores.get(n.value.value.id, 0) <= 1:
+                defs[tgt.id] = n.value  # a bound method of a local collection
+    if not defs:
+        return False
+
+    def bind(a: ast.arguments, call: ast.Call) -> dict[str, ast.expr] | None:
+        pos = [p_.arg for p_ in [*a.posonlyargs, *a.args]]
+        if any(isinstance(x, ast.Starred) for x in call.args) or any(k.arg is None for k in call.keywords) or len(call.args) > len(pos):
+            return None
+        b: dict[str, ast.expr] = dict(zip(pos, call.args))
+        for k in call.keywords:
+            if k.arg not in pos:
+                return None
+            b[k.arg] = k.value
+        for p_, d in zip(pos[len(pos) - len(a.defaults):], a.defaults):
+            if isinstance(d, ast.Constant):
+                b.setdefault(p_, d)
+        return b if set(b) == set(pos) else None
+
+    def body_of(g: ast.FunctionDef, call: ast.Call, at: ast.stmt, want_value: bool):
+        b = bind(g.args, call)
+        if b is None:
+            return None
+        src = [s_ for s_ in g.body if not (isinstance(s_, ast.Expr) and isinstance(s_.value, ast.Constant)) and not isinstance(s_, (ast.Nonlocal, ast.Pass))]
+        rets = [x for s_ in src for x in ast.walk(s_) if isinstance(x, ast.Return)]
+        tail = src[-1] if src and isinstance(src[-1], ast.Return) else None
+        if any(r is not tail for r in rets):
+            return None
+        if want_value and (tail is None or tail.value is None):
+            return None
+        if not want_value and tail is not None and tail.value is not None and not isinstance(tail.value, (ast.Constant, ast.Name)):
+            return None
+        body = [_clone(s_) for s_ in src if s_ is not tail]
+        value = _clone(tail.value) if (tail is not None and tail.value is not None) else None
+        nonlocals = {nm for s_ in g.body if isinstance(s_, ast.Nonlocal) for nm in s_.names}
+        pos = list(b)
+        stored = {n.id for s_ in body for n in ast.walk(s_) if isinstance(n, ast.Name) and isinstance(n.ctx, ast.Store)} - nonlocals
+        prefix: list[ast.stmt] = []
+        ren: dict[str, str] = {}
+        for p_ in pos:
+            val = b[p_]
+            if isinstance(val, ast.Name) and p_ not in stored:
+                ren[p_] = val.id
+            else:
+                new = p_ if p_ not in taken else f"{p_}__{g.name.strip('_')}"
+                while new in taken and new != p_:
+                    new += "_"
+                taken.add(new)
+                ren[p_] = new
+                prefix.append(ast.copy_location(ast.Assign(targets=[ast.Name(id=new, ctx=ast.Store())], value=val), at))
+        for l_ in sorted(stored - set(pos)):
+            if l_ in taken:
+                new = f"{l_}__{g.name.strip('_')}"
+                while new in taken:
+                    new += "_"
+                taken.add(new)
+                ren[l_] = new
+            else:
+                taken.add(l_)
+
+        class Ren(ast.NodeTransformer):
+            def visit_Name(self, m_: ast.Name):  # noqa: N802
+                if m_.id in ren:
+                    m_.id = ren[m_.id]
+                return m_
+
+            def visit_Lambda(self, m_: ast.Lambda):  # noqa: N802
+                own = {p_.arg for p_ in [*m_.args.posonlyargs, *m_.args.args, *m_.args.kwonlyargs]}
+                if own & set(ren):
+                    return m_  # the lambda's own parameters shadow
+                self.generic_visit(m_)
+                return m_
+
+        r = Ren()
+        body = [r.visit(s_) for s_ in body]
+        if value is not None:
+            value = r.visit(value)
+        return prefix + body, value
+
+    simple = (ast.Name, ast.Constant)
+
+    class Exprs(ast.NodeTransformer):
+        def visit_Lambda(self, n):  # noqa: N802
+            return n
+
+        def visit_FunctionDef(self, n):  # noqa: N802
+            if n is fn:
+                self.generic_visit(n)
+            return n
+
+        def visit_Call(self, n: ast.Call):  # noqa: N802
+            nonlocal changed
+            self.generic_visit(n)
+            if not (isinstance(n.func, ast.Name) and n.func.id in defs):
+                return n
+            d = defs[n.func.id]
+            if isinstance(d, ast.Attribute):
+                changed = True
+                n.func = ast.copy_location(_clone(d), n.func)
+                return n
+            if isinstance(d, ast.Lambda):
+                b = bind(d.args, n)
+                if b is None or not all(isinstance(x, simple) or (isinstance(x, ast.Attribute) and isinstance(x.value, ast.Name)) for x in b.values()):
+                    return n
+                expr = _clone(d.body)
+
+                class Sub(ast.NodeTransformer):
+                    def visit_Name(self, m_: ast.Name):  # noqa: N802
+                        if m_.id in b and isinstance(m_.ctx, ast.Load):
+                            return _clone(b[m_.id])
+                        return m_
+
+                changed = True
+                return Sub().visit(expr)
+            return n
+
+    def block(stmts: list[ast.stmt]) -> list[ast.stmt]:
+        nonlocal changed
+        out: list[ast.stmt] = []
+        for st in stmts:
+            if isinstance(st, (ast.FunctionDef, ast.AsyncFunctionDef, ast.ClassDef)):
+                out.append(st)
+                continue
+            for fld in ("body", "orelse", "finalbody"):
+                blk = getattr(st, fld, None)
+                if isinstance(blk, list) and blk and isinstance(blk[0], ast.stmt):
+                    setattr(st, fld, block(blk) or [ast.copy_location(ast.Pass(), st)])
+            if isinstance(st, ast.Try):
+                for h in st.handlers:
+                    h.body = block(h.body) or [ast.copy_location(ast.Pass(), st)]
+            call = st.value if isinstance(st, (ast.Expr, ast.Assign, ast.AnnAssign)) and isinstance(getattr(st, "value", None), ast.Call) else None
+            if call is not None and isinstance(call.func, ast.Name) and isinstance(defs.get(call.func.id), ast.FunctionDef):
+                got = body_of(defs[call.func.id], call, st, want_value=not isinstance(st, ast.Expr))
+                if got is not None:
+                    stmts_, value = got
+                    out += stmts_
+                    if not isinstance(st, ast.Expr):
+                        st.value = value
+                        out.append(st)
+                    changed = True
+                    continue
+            out.append(st)
+        return out
+
+    fn.body = block(fn.body)
+    tr = Exprs()
+    fn.body = [tr.visit(s_) for s_ in fn.body]
+    # statements that are now a bare constant / name (`None` left by `lambda ..: None`)
+    def prune(stmts: list[ast.stmt]) -> list[ast.stmt]:
+        out: list[ast.stmt] = []
+        for st in stmts:
+            for fld in ("body", "orelse", "finalbody"):
+                blk = getattr(st, fld, None)
+                if isinstance(blk, list) and blk and isinstance(blk[0], ast.stmt) and not isinstance(st, (ast.FunctionDef, ast.AsyncFunctionDef, ast.ClassDef)):
+                    setattr(st, fld, prune(blk) or ([ast.copy_location(ast.Pass(), st)] if fld == "body" else []))
+            if isinstance(st, ast.Expr) and isinstance(st.value, (ast.Constant, ast.Name)) and not (isinstance(st.value, ast.Constant) and isinstance(st.value.value, str)):
+                continue
+            out.append(st)
+        return out
+
+    fn.body = prune(fn.body)
+    # definitions nobody refers to any more
+    set_parents(fn)
+    for name, d in defs.items():
+        if any(isinstance(n, ast.Name) and n.id == name and isinstance(n.ctx, ast.Load) for n in ast.walk(fn)):
+            continue
+        holder = d if isinstance(d, ast.FunctionDef) else stmt_of(d)
+        for blk in _blocks(fn):
+            if any(x is holder for x in blk):
+                blk.remove(holder)
+                if not blk:
+                    blk.append(ast.copy_location(ast.Pass(), holder))
+                changed = True
+                break
+    return changed
+
+
+def _record_constructor(repo: Repo, view: FuncInfo, ci, recv: str, call: ast.Call, at: ast.stmt) -> list[ast.stmt] | None:
+    """`x = C(a, b)` for a dataclass / NamedTuple without `__init__`: `x.f1 = a; x.f2 = b` (defaults: constants and `field(default_factory=F)`)."""
+    src = getattr(call, "_src", None)
+    mod = src[0].module if src is not None else view.module
+    got = _record_fields(repo, mod, call.func)
+    if got is None:
+        return None
+    names, _iterable = got
+    if any(isinstance(a, ast.Starred) for a in call.args) or any(k.arg is None for k in call.keywords) or len(call.args) > len(names):
+        return None
+    vals: dict[str, ast.expr] = dict(zip(names, call.args))
+    for k in call.keywords:
+        vals[k.arg] = k.value
+    for n_ in names:
+        if n_ in vals:
+            continue
+        d = ci.class_attrs.get(n_)
+        if d is None:
+            return None
+        if isinstance(d, ast.Constant):
+            vals[n_] = d
+        elif isinstance(d, ast.Call) and norm(d.func).split(".")[-1] == "field" and len(d.keywords) == 1 and d.keywords[0].arg == "default_factory" and not d.args:
+            vals[n_] = ast.Call(func=d.keywords[0].value, args=[], keywords=[])
+        elif isinstance(d, ast.Call) and norm(d.func).split(".")[-1] == "field" and len(d.keywords) == 1 and d.keywords[0].arg == "default" and not d.args:
+            vals[n_] = d.keywords[0].value
+        else:
+            return None
+    if set(vals) != set(names):
+        return None
+    return [ast.copy_location(ast.Assign(targets=[ast.Attribute(value=ast.Name(id=recv, ctx=ast.Load()), attr=n_, ctx=ast.Store())], value=vals[n_]), at) for n_ in names]
+
+
+def _scalarise_objects(view: FuncInfo) -> None:
+    """A local helper object that was taken apart completely (constructor, methods and iteration substituted) is only read and
+    written attribute by attribute: `x.attr` becomes the local `x__attr`."""
+    fn = view.node
+    objects = view.__dict__.get("objects") or {}
+    if not objects:
+        return
+    set_parents(fn)
+    taken = {n.id for n in ast.walk(fn) if isinstance(n, ast.Name)}
+    for x in objects:
+        uses = [n for n in ast.walk(fn) if isinstance(n, ast.Name) and n.id == x]
+        if not uses or not all(isinstance(parent(n), ast.Attribute) and parent(n).value is n and isinstance(n.ctx, ast.Load) for n in uses):
+            continue  # the object is still constructed / passed on as a whole somewhere
+        names: dict[str, str] = {}
+        for n in uses:
+            att = parent(n)
+            if att.attr not in names:
+                new = f"{x}__{att.attr.strip('_')}"
+                while new in taken:
+                    new += "_"
+                taken.add(new)
+                names[att.attr] = new
+            ref = ast.copy_location(ast.Name(id=names[att.attr], ctx=att.ctx), att)
+            if hasattr(att, "_src"):
+                ref._src = att._src  # type: ignore[attr-defined]
+            par = parent(att)
+            for fld, val in ast.iter_fields(par):
+                if val is att:
+                    setattr(par, fld, ref)
+                elif isinstance(val, list):
+                    for j, y in enumerate(val):
+                        if y is att:
+                            val[j] = ref
+            if isinstance(par, ast.AnnAssign) and par.target is ref:
+                par.simple = 1
+        set_parents(fn)
+
+
+def _inline_generator_loops(repo: Repo, view: FuncInfo) -> bool:
+    """`for v in gen(args): BODY` where `gen` is a small generator helper whose `yield e` statements end their loop iteration:
+    the helper's loops with `v = e; BODY` in place of each yield.  The generator may also be a method of a local helper object
+    (`for t in walk:` with a generator `__iter__`, `for t in walk.edges():`)."""
+    changed = False
+    taken = {n.id for n in ast.walk(view.node) if isinstance(n, ast.Name)}
+    objects = _local_objects(repo, view)
+    view.__dict__["objects"] = objects
 
     def tail_yields(f: FuncInfo) -> tuple[bool, bool]:
         """(the helper has a shape that can be substituted, every yield ends its loop iteration)"""
@@ -663,10 +1641,190 @@ def _inline_generator_loops(repo: Repo, view: FuncInfo) -> bool:
             if isinstance(st, ast.Try):
                 for h in st.handlers:
                     h.body = block(h.body)
-            if isinstance(st, ast.For) and isinstance(st.iter, ast.Call):
-                f = _helper_of(repo, view, st.iter)
-                if f is not None and _is_generator(f):
+            if isinstance(st, ast.For):
+                tgt_ = _generator_target(repo, view, st.iter, objects)
+                if tgt_ is not None:
+                    f, call_ = tgt_
+                    orig_iter = st.iter
+                    st.iter = call_
                     got = expand(st, f)
+                    if got is not None:
+                        out += got
+                        changed = True
+                        view.__dict__.setdefault("gen_inlined", []).append(f.fq)
+                        continue
+                    st.iter = orig_iter
+            out.append(st)
+        return out
+
+    view.node.body = block(view.node.body)
+    return changed
+
+
+def _recursion_to_worklists(repo: Repo, view: FuncInfo) -> bool:
+    """`walk(g, start, acc)` as a statement, where `walk` is a module-level helper that calls itself only as a statement, hands every
+    parameter but one (the node) on unchanged and returns nothing:
+
+        def walk(g, node, acc):              pending = [start]
+            if node in acc: return           while pending:
+            acc.add(node)             ->         node = pending.pop()
+            for c in g.succ(node):               if node in acc: continue
+                if ..: walk(g, c, acc)           acc.add(node)
+                                                 for c in g.succ(node):
+                                                     if ..: pending.append(c)
+
+    The nodes are then examined in another order (a stack instead of the call stack), but the same nodes are examined, each
+    with the same tests on its neighbours - which is all the model of a search talks about."""
+    changed = False
+    taken = {n.id for n in ast.walk(view.node) if isinstance(n, ast.Name)}
+
+    def shape(f: FuncInfo) -> int | None:
+        """index of the one parameter that varies in the self-calls, if the helper has the accumulator-passing form"""
+        if isinstance(f.node, ast.Lambda) or _is_generator(f) or f.node.args.vararg or f.node.args.kwarg or f.node.args.kwonlyargs:
+            return None
+        params = f.param_names
+        calls = _self_calls(f)
+        if not calls:
+            return None
+        varying: set[int] = set()
+        for c in calls:
+            if not isinstance(parent(c), ast.Expr) or any(isinstance(a, ast.Starred) for a in c.args) or any(k.arg is None for k in c.keywords):
+                return None
+            bound: dict[str, ast.expr] = dict(zip(params, c.args))
+            for k in c.keywords:
+                bound[k.arg] = k.value
+            if set(bound) != set(params):
+                return None
+            for i, p_ in enumerate(params):
+                if not (isinstance(bound[p_], ast.Name) and bound[p_].id == p_):
+                    varying.add(i)
+        if len(varying) != 1:
+            return None
+        k = next(iter(varying))
+        # the unchanged parameters are never rebound, the node parameter is not rebound either
+        for n in own_nodes(f.node):
+            if isinstance(n, ast.Name) and isinstance(n.ctx, (ast.Store, ast.Del)) and n.id in params:
+                return None
+            if isinstance(n, ast.Return) and n.value is not None and not (isinstance(n.value, ast.Constant) and n.value.value is None):
+                return None
+            if isinstance(n, (ast.FunctionDef, ast.AsyncFunctionDef, ast.ClassDef, ast.Global, ast.Nonlocal, ast.Try, ast.With)):
+                return None
+
+        # `return` only where `continue` of the new loop means the same: not inside a loop of the helper
+        def returns_in_loops(stmts: list[ast.stmt], in_loop: bool) -> bool:
+            for st in stmts:
+                if isinstance(st, ast.Return) and in_loop:
+                    return True
+                for fld in ("body", "orelse"):
+                    blk = getattr(st, fld, None)
+                    if isinstance(blk, list) and blk and isinstance(blk[0], ast.stmt) and returns_in_loops(blk, in_loop or isinstance(st, (ast.For, ast.While))):
+                        return True
+            return False
+
+        if returns_in_loops(f.node.body, False):
+            return None
+        return k
+
+    def expand(st: ast.Expr, f: FuncInfo, k: int) -> list[ast.stmt] | None:
+        call = st.value
+        if any(isinstance(a, ast.Starred) for a in call.args) or any(kw.arg is None for kw in call.keywords):
+            return None
+        params = f.param_names
+        bind: dict[str, ast.expr] = dict(zip(params, call.args))
+        for kw in call.keywords:
+            bind[kw.arg] = kw.value
+        a = f.node.args
+        pos = [p_.arg for p_ in [*a.posonlyargs, *a.args]]
+        for p_, d in zip(pos[len(pos) - len(a.defaults):], a.defaults):
+            bind.setdefault(p_, d)
+        if any(p_ not in bind for p_ in params):
+            return None
+        body = [_clone_src(s_, f) for s_ in f.node.body if not (isinstance(s_, ast.Expr) and isinstance(s_.value, ast.Constant))]
+        stored = {n.id for s_ in body for n in ast.walk(s_) if isinstance(n, ast.Name) and isinstance(n.ctx, ast.Store)}
+        prefix: list[ast.stmt] = []
+        ren: dict[str, str] = {}
+        for i, p_ in enumerate(params):
+            if i == k:
+                new = p_ if p_ not in taken else f"{p_}__{f.name.strip('_')}"
+                taken.add(new)
+                ren[p_] = new
+                continue
+            val = bind[p_]
+            if isinstance(val, ast.Name):
+                ren[p_] = val.id
+            else:
+                new = p_ if p_ not in taken else f"{p_}__{f.name.strip('_')}"
+                taken.add(new)
+                ren[p_] = new
+                prefix.append(ast.copy_location(ast.Assign(targets=[ast.Name(id=new, ctx=ast.Store())], value=val), st))
+        for l_ in sorted(stored - set(params)):
+            if l_ in taken:
+                new = f"{l_}__{f.name.strip('_')}"
+                taken.add(new)
+                ren[l_] = new
+            else:
+                taken.add(l_)
+        wl = f"pending_calls_of_{f.name.strip('_')}"  # reports then read `pending_calls_of_walk.append(child)` for the recursive call
+        while wl in taken:
+            wl += "_"
+        taken.add(wl)
+
+        def subst(stmts: list[ast.stmt]) -> list[ast.stmt]:
+            out: list[ast.stmt] = []
+            for x in stmts:
+                if isinstance(x, ast.Return):
+                    out.append(ast.copy_location(ast.Continue(), x))
+                    continue
+                if isinstance(x, ast.Expr) and isinstance(x.value, ast.Call) and isinstance(x.value.func, ast.Name) and x.value.func.id == f.name:
+                    c = x.value
+                    b2: dict[str, ast.expr] = dict(zip(params, c.args))
+                    for kw in c.keywords:
+                        b2[kw.arg] = kw.value
+                    push = ast.Expr(value=ast.Call(func=ast.Attribute(value=ast.Name(id=wl, ctx=ast.Load()), attr="append", ctx=ast.Load()), args=[b2[params[k]]], keywords=[]))
+                    out.append(ast.copy_location(push, x))
+                    if hasattr(x, "_src"):
+                        push._src = x._src  # type: ignore[attr-defined]
+                    continue
+                for fld in ("body", "orelse"):
+                    blk = getattr(x, fld, None)
+                    if isinstance(blk, list) and blk and isinstance(blk[0], ast.stmt):
+                        setattr(x, fld, subst(blk) or [ast.copy_location(ast.Pass(), x)])
+                out.append(x)
+            return out
+
+        body = subst(body)
+        for s_ in body:
+            for n in ast.walk(s_):
+                if isinstance(n, ast.Name) and n.id in ren:
+                    n.id = ren[n.id]
+        init = ast.copy_location(ast.Assign(targets=[ast.Name(id=wl, ctx=ast.Store())], value=ast.List(elts=[bind[params[k]]], ctx=ast.Load())), st)
+        pop = ast.copy_location(ast.Assign(targets=[ast.Name(id=ren[params[k]], ctx=ast.Store())], value=ast.Call(func=ast.Attribute(value=ast.Name(id=wl, ctx=ast.Load()), attr="pop", ctx=ast.Load()), args=[], keywords=[])), st)
+        loop = ast.copy_location(ast.While(test=ast.Name(id=wl, ctx=ast.Load()), body=[pop, *body], orelse=[]), st)
+        return prefix + [init, loop]
+
+    def block(stmts: list[ast.stmt]) -> list[ast.stmt]:
+        nonlocal changed
+        out: list[ast.stmt] = []
+        for st in stmts:
+            for fld in ("body", "orelse", "finalbody"):
+                blk = getattr(st, fld, None)
+                if isinstance(blk, list) and blk and isinstance(blk[0], ast.stmt):
+                    setattr(st, fld, block(blk))
+            if isinstance(st, ast.Try):
+                for h in st.handlers:
+                    h.body = block(h.body)
+            if isinstance(st, ast.Expr) and isinstance(st.value, ast.Call) and isinstance(st.value.func, ast.Name):
+                f = None
+                try:
+                    cs, how = types_of(repo).callees(view, st.value, byname_fallback=False)
+                    cs = [c for c in cs if not c.is_abstract]
+                    if len(cs) == 1 and how == "repo" and cs[0].cls is None and cs[0].outer is None and not isinstance(cs[0].node, ast.Lambda):
+                        f = cs[0]
+                except Exception:  # noqa: BLE001
+                    f = None
+                k = shape(f) if f is not None and _self_recursive(f) else None
+                if k is not None:
+                    got = expand(st, f, k)
                     if got is not None:
                         out += got
                         changed = True
@@ -685,6 +1843,8 @@ def _generator_comprehensions_to_loops(repo: Repo, view: FuncInfo) -> bool:
     changed = False
     taken = {n.id for n in ast.walk(view.node) if isinstance(n, ast.Name)}
     counter = [0]
+    objects = _local_objects(repo, view)
+    view.__dict__["objects"] = objects
 
     def fresh() -> str:
         while True:
@@ -694,35 +1854,77 @@ def _generator_comprehensions_to_loops(repo: Repo, view: FuncInfo) -> bool:
                 taken.add(name)
                 return name
 
+    def over_generator(e: ast.AST):
+        """(kind, generators, element, wrapper) when `e` collects what a repo generator helper yields: a comprehension whose first
+        generator iterates the helper, `set(<genexp>)`, or the helper's result handed to a collection constructor (`set(gen(..))`)."""
+        kind = wrapper = None
+        comp = e
+        if isinstance(e, ast.Call) and isinstance(e.func, ast.Name) and e.func.id in ("set", "list", "frozenset", "tuple", "sorted") and len(e.args) == 1 and not e.keywords:
+            kind = "set" if e.func.id in ("set", "frozenset") else "list"
+            wrapper = e.func.id if e.func.id in ("frozenset", "tuple", "sorted") else None
+            comp = e.args[0]
+            if isinstance(comp, (ast.Call, ast.Name)):
+                if _generator_target(repo, view, comp, objects) is None:
+                    return None
+                x = fresh()
+                gen = ast.comprehension(target=ast.Name(id=x, ctx=ast.Store()), iter=comp, ifs=[], is_async=0)
+                return kind, [gen], ast.Name(id=x, ctx=ast.Load()), wrapper
+            if not isinstance(comp, (ast.GeneratorExp, ast.ListComp, ast.SetComp)):
+                return None
+        elif isinstance(e, ast.SetComp):
+            kind = "set"
+        elif isinstance(e, (ast.ListComp, ast.GeneratorExp)):
+            kind = "list"
+        if kind is None or not comp.generators or any(g_.is_async for g_ in comp.generators):
+            return None
+        if _generator_target(repo, view, comp.generators[0].iter, objects) is None:
+            return None
+        return kind, list(comp.generators), comp.elt, wrapper
+
+    def loops(gens: list, add: ast.stmt, at: ast.stmt) -> ast.stmt:
+        # `[e for a in G if c for b in I if d]` is `for a in G: if c: for b in I: if d: acc.append(e)` (same evaluation order)
+        body: list[ast.stmt] = [add]
+        loop = None
+        for g_ in reversed(gens):
+            for c in reversed(g_.ifs):
+                body = [ast.copy_location(ast.If(test=c, body=body, orelse=[]), at)]
+            loop = ast.copy_location(ast.For(target=g_.target, iter=g_.iter, body=body, orelse=[]), at)
+            for n in ast.walk(loop.target):
+                if isinstance(n, (ast.Name, ast.Tuple, ast.List)):
+                    n.ctx = ast.Store()
+            body = [loop]
+        return loop
+
+    def adder(recv: ast.expr, method: str, elt: ast.expr, at: ast.stmt) -> ast.stmt:
+        return ast.copy_location(ast.Expr(value=ast.Call(func=ast.Attribute(value=recv, attr=method, ctx=ast.Load()), args=[elt], keywords=[])), at)
+
     def rewrite(st: ast.stmt) -> list[ast.stmt] | None:
+        # `X.extend(<comprehension over gen(..)>)` / `X.update(..)` / `X += [..]` / `X |= {..}`: the elements are added one by one
+        if isinstance(st, ast.Expr) and isinstance(st.value, ast.Call) and isinstance(st.value.func, ast.Attribute) and st.value.func.attr in ("extend", "update") and isinstance(st.value.func.value, ast.Name) and len(st.value.args) == 1 and not st.value.keywords:
+            got = over_generator(st.value.args[0])
+            if got is not None and got[3] is None:
+                return [loops(got[1], adder(_clone(st.value.func.value), "append" if st.value.func.attr == "extend" else "add", got[2], st), st)]
+            return None
+        if isinstance(st, ast.AugAssign) and isinstance(st.op, (ast.Add, ast.BitOr)) and isinstance(st.target, ast.Name):
+            got = over_generator(st.value)
+            if got is not None and got[3] is None:
+                recv = ast.copy_location(ast.Name(id=st.target.id, ctx=ast.Load()), st.target)
+                return [loops(got[1], adder(recv, "append" if isinstance(st.op, ast.Add) else "add", got[2], st), st)]
+            return None
         if not (isinstance(st, (ast.Return, ast.Assign, ast.AnnAssign)) and getattr(st, "value", None) is not None):
             return None
         val = st.value
-        kind = None
-        comp = val
-        if isinstance(val, ast.Call) and isinstance(val.func, ast.Name) and val.func.id in ("set", "list") and len(val.args) == 1 and not val.keywords and isinstance(val.args[0], ast.GeneratorExp):
-            kind, comp = val.func.id, val.args[0]
-        elif isinstance(val, ast.SetComp):
-            kind = "set"
-        elif isinstance(val, ast.ListComp):
-            kind = "list"
-        if kind is None or len(comp.generators) != 1 or comp.generators[0].is_async or not isinstance(comp.generators[0].iter, ast.Call):
+        got = over_generator(val)
+        if got is None:
             return None
-        g = comp.generators[0]
-        f = _helper_of(repo, view, g.iter)
-        if f is None or not _is_generator(f):
-            return None
+        kind, gens, elt, wrapper = got
         acc = fresh()
         init = ast.copy_location(ast.Assign(targets=[ast.Name(id=acc, ctx=ast.Store())], value=ast.Call(func=ast.Name(id=kind, ctx=ast.Load()), args=[], keywords=[])), st)
-        add = ast.copy_location(ast.Expr(value=ast.Call(func=ast.Attribute(value=ast.Name(id=acc, ctx=ast.Load()), attr="add" if kind == "set" else "append", ctx=ast.Load()), args=[comp.elt], keywords=[])), st)
-        body: list[ast.stmt] = [add]
-        for c in reversed(g.ifs):
-            body = [ast.copy_location(ast.If(test=c, body=body, orelse=[]), st)]
-        loop = ast.copy_location(ast.For(target=g.target, iter=g.iter, body=body, orelse=[]), st)
-        for n in ast.walk(loop.target):
-            if isinstance(n, (ast.Name, ast.Tuple, ast.List)):
-                n.ctx = ast.Store()
-        st.value = ast.copy_location(ast.Name(id=acc, ctx=ast.Load()), val)
+        loop = loops(gens, adder(ast.Name(id=acc, ctx=ast.Load()), "add" if kind == "set" else "append", elt, st), st)
+        ref: ast.expr = ast.copy_location(ast.Name(id=acc, ctx=ast.Load()), val)
+        if wrapper is not None:
+            ref = ast.copy_location(ast.Call(func=ast.Name(id=wrapper, ctx=ast.Load()), args=[ref], keywords=[]), val)
+        st.value = ref
         return [init, loop, st]
 
     def block(stmts: list[ast.stmt]) -> list[ast.stmt]:
@@ -792,19 +1994,114 @@ def _unqualified(repo: Repo, fi: FuncInfo) -> FuncInfo:
     return pre
 
 
+_GROW = {"add", "update", "append", "extend", "insert", "appendleft", "extendleft"}
+_SHRINK = {"remove", "discard", "clear", "pop", "popleft", "difference_update", "intersection_update", "symmetric_difference_update", "sort", "reverse"}
+
+
+def _set_algebra(e: ast.AST) -> bool:
+    """`A - B`, `A | B`, `A & B`, `A.difference(B)`, .. over plain names (copies stripped)."""
+    e = strip(e)
+    if isinstance(e, ast.Name):
+        return True
+    if isinstance(e, ast.BinOp) and isinstance(e.op, (ast.BitOr, ast.Sub, ast.BitAnd)):
+        return _set_algebra(e.left) and _set_algebra(e.right)
+    if isinstance(e, ast.Call) and isinstance(e.func, ast.Attribute) and e.func.attr in ("union", "difference", "intersection") and e.args and not e.keywords:
+        return _set_algebra(e.func.value) and all(_set_algebra(a) for a in e.args)
+    return False
+
+
+def _superset_copies(fn: ast.AST, params: set[str]) -> dict[str, tuple[ast.AST, int]]:
+    """V -> (X, position of V's binding) for locals `V = set(X)` / `X.copy()` / `list(X)` (a *copy* of the node set X) or
+    `V = A - B` (set algebra over node sets), bound once by a top-level statement, that afterwards only grow (`V.add(..)`,
+    `V.update(..)`, `V |= ..`) while the operands are not changed any more: V >= X holds wherever V is read."""
+    mut = _mutation_positions(fn)
+    pos = mut["@pos"]
+    out: dict[str, tuple[str, int]] = {}
+    # bound once by a plain assignment (a growing `V |= ..` is not a rebinding)
+    stores: dict[str, int] = {}
+    vals: dict[str, ast.expr] = {}
+    for n in ast.walk(fn):
+        if isinstance(n, ast.Name) and isinstance(n.ctx, (ast.Store, ast.Del)) and not isinstance(parent(n), ast.AugAssign):
+            stores[n.id] = stores.get(n.id, 0) + 1
+        if isinstance(n, ast.Assign) and len(n.targets) == 1 and isinstance(n.targets[0], ast.Name):
+            vals[n.targets[0].id] = n.value
+        elif isinstance(n, ast.AnnAssign) and isinstance(n.target, ast.Name) and n.value is not None:
+            vals[n.target.id] = n.value
+    for v_name, val in vals.items():
+        if v_name in params or stores.get(v_name) != 1:
+            continue
+        x = strip(val)
+        if isinstance(x, ast.Name):
+            if x is val or x.id == v_name:
+                continue  # an alias, not a copy
+        elif not (isinstance(x, (ast.BinOp, ast.Call)) and _set_algebra(x)):
+            continue
+        st = stmt_of(val)
+        if st is None or parent(st) is not fn:
+            continue
+        here = pos.get(id(val), -1)
+        operands = {n.id for n in ast.walk(x) if isinstance(n, ast.Name)}
+        if v_name in operands or any(p_ > here for o_ in operands for p_ in mut.get(o_, [])):
+            continue
+        ok = True
+        for n in ast.walk(fn):
+            if isinstance(n, ast.Call) and isinstance(n.func, ast.Attribute) and isinstance(n.func.value, ast.Name) and n.func.value.id == v_name and n.func.attr in _SHRINK:
+                ok = False
+            elif isinstance(n, ast.AugAssign) and isinstance(n.target, ast.Name) and n.target.id == v_name and not isinstance(n.op, (ast.BitOr, ast.Add)):
+                ok = False
+        if ok:
+            out[v_name] = (x, here)
+    return out
+
+
+def _expand_superset_tests(fn: ast.AST, params: set[str]) -> None:
+    """With V >= X (see _superset_copies) `e in V` is `e in V or e in X` and `e not in V` is `e not in V and e not in X`: written out,
+    so that what a test of the merged set (`closed = set(excluded)`, then every expanded node is added) says about the set it was
+    seeded from survives the later growth of V (path conditions on V are dropped once V is mutated, those on X are not)."""
+    set_parents(fn)
+    sup = _superset_copies(fn, params)
+    if not sup:
+        return
+    pos = {id(n): i for i, n in enumerate(_preorder(fn))}
+    for par in list(ast.walk(fn)):
+        for fld, val in list(ast.iter_fields(par)):
+            items = val if isinstance(val, list) else [val]
+            for i, x in enumerate(items):
+                if not (isinstance(x, ast.Compare) and len(x.ops) == 1 and isinstance(x.ops[0], (ast.In, ast.NotIn)) and isinstance(x.comparators[0], ast.Name) and x.comparators[0].id in sup):
+                    continue
+                base, here = sup[x.comparators[0].id]
+                if pos.get(id(x), -1) <= here:
+                    continue
+                other = ast.copy_location(ast.Compare(left=_clone(x.left), ops=[type(x.ops[0])()], comparators=[ast.copy_location(_clone(base), x)]), x)
+                new = ast.copy_location(ast.BoolOp(op=ast.Or() if isinstance(x.ops[0], ast.In) else ast.And(), values=[x, other]), x)
+                for n_ in (other, new):
+                    if hasattr(x, "_src"):
+                        n_._src = x._src  # type: ignore[attr-defined]
+                if isinstance(val, list):
+                    val[i] = new
+                else:
+                    setattr(par, fld, new)
+
+
 def search_view(repo: Repo, fi: FuncInfo) -> FuncInfo:
     cache = repo.__dict__.setdefault("_search_views", {})
     if fi.fq in cache:
         return cache[fi.fq]
     v0 = Inliner(repo, types_of(repo), _allow).view(_unqualified(repo, fi))
     inlined = list(getattr(v0, "inlined", []))
-    for _ in range(3):
+    objects_seen: dict = {}
+    for _ in range(4):
         # helper calls the inliner could not reach (nested in an expression, generator helpers in a for header): make them
         # reachable and substitute once more
+        v0.__dict__["objects"] = objects_seen
         changed = _hoist_helper_calls(repo, v0)
+        changed = _inline_object_methods(repo, v0) or changed
+        changed = _inline_local_callables(v0) or changed
+        changed = _recursion_to_worklists(repo, v0) or changed
         changed = _generator_comprehensions_to_loops(repo, v0) or changed
         changed = _inline_generator_loops(repo, v0) or changed
         inlined += v0.__dict__.get("gen_inlined", [])
+        objects_seen = dict(v0.__dict__.get("objects") or {})
         if not changed:
             break
         ast.fix_missing_locations(v0.node)
@@ -813,11 +2110,17 @@ def search_view(repo: Repo, fi: FuncInfo) -> FuncInfo:
         inlined += list(getattr(v1, "inlined", []))
         v0 = v1
     node = v0.node
+    v0.__dict__["objects"] = objects_seen
+    _scalarise_objects(v0)
+    _fold_constants(node)
+    _unpack_records(repo, v0)
     _positionalise(node, repo)
     node.body = _split_tuple_assigns(node.body)
     _project_tuples(node)
     node.body = _thread_none_exits(node.body)
     _eliminate_aliases(node, set(fi.param_names))
+    _propagate_copies(node, set(fi.param_names))
+    _expand_superset_tests(node, set(fi.param_names))
     node.body = _split_conditions(node.body)
     ast.fix_missing_locations(node)
     set_parents(node)
@@ -976,22 +2279,70 @@ def make_subst(repo: Repo, v: FuncInfo):
 
     mutated_at = _mutation_positions(v.node)
 
-    def member(left: str, se: ast.AST, depth: int = 0, top: bool = True) -> Formula | None:
+    unions = _union_built(v.node, params)
+
+    def eq_atom(left: str, e: ast.AST) -> Formula | None:
+        try:
+            return to_formula(ast.Compare(left=ast.parse(left, mode="eval").body, ops=[ast.Eq()], comparators=[e]), subst)
+        except SyntaxError:
+            return None
+
+    def snapshot(left: str, name: str, at: int) -> Formula | None:
+        """`left in name` as it was at position `at`, when `name` is changed afterwards only one node at a time (`name.add(e)`,
+        `name.remove(e)` / `discard(e)`):  what is in the final set and was not put in later was there already; what was taken out
+        later may have been there (a free atom)."""
+        later = [pos for pos in mutated_at.get(name, []) if pos > at]
+        if not later:
+            return atom(f"{left} in {name}")
+        adds: list[Formula] = []
+        for n in ast.walk(v.node):
+            if mutated_at["@pos"].get(id(n), -1) not in later:
+                continue
+            if isinstance(n, ast.Call) and isinstance(n.func, ast.Attribute) and isinstance(n.func.value, ast.Name) and n.func.value.id == name and len(n.args) == 1 and not n.keywords:
+                if n.func.attr == "add":
+                    eq = eq_atom(left, n.args[0])
+                    if eq is None:
+                        return None
+                    adds.append(f_and([conds_formula(all_conds(v, n), subst), eq]))
+                    continue
+                if n.func.attr in ("remove", "discard"):
+                    continue
+            return None  # changed wholesale afterwards: the earlier content is unknown
+        return f_or([f_and([atom(f"{left} in {name}"), f_not(f_or(adds))]), atom(f"{left} in {name}@{at}")])
+
+    def member(left: str, se: ast.AST, depth: int = 0, top: bool = True, at: int | None = None) -> Formula | None:
         """Formula of `left in <set expression>` for set algebra over node sets (`A | B`, `A - B`, `A & B`, .union / .difference /
         .intersection, `{*A, *B}`), also through a local bound once to such an expression whose operands are complete by then.
         None when the expression is a plain set (the membership stays an atom)."""
         se = strip(se)
+        if isinstance(se, ast.Name) and se.id in single and se.id not in params and _is_empty_collection(single[se.id]) and len(mutated_at.get(se.id, [])) <= 1:
+            return FALSE_F  # bound once to an empty collection and never filled (`barred = frozenset()`): nothing is in it
+        if isinstance(se, ast.Name) and se.id in unions and depth < 4:
+            # `U = set(A)` .. `U.update(B)` .. `U |= C` (all before U is read): U is A | B | C
+            parts_ = [member(left, x, depth + 1, False) for x in unions[se.id]]
+            if parts_ and all(p_ is not None for p_ in parts_):
+                return f_or(parts_)
         if isinstance(se, ast.Name):
             if se.id in single and se.id not in params and depth < 4:
                 val = strip(single[se.id])
                 if isinstance(val, (ast.BinOp, ast.Set)) or (isinstance(val, ast.Call) and isinstance(val.func, ast.Attribute) and val.func.attr in ("union", "difference", "intersection")):
                     here = mutated_at["@pos"].get(id(single[se.id]), -1)
                     operands = {x.id for x in ast.walk(val) if isinstance(x, ast.Name)}
-                    if not any(pos > here for x in operands for pos in mutated_at.get(x, [])):
-                        got = member(left, val, depth + 1, True)
+                    later = _later_adds(v.node, se.id)  # `V = A - B` .. `if flag: V.add(e)`: V is (A - B) plus e under flag
+                    if later is not None:
+                        # operands that are still changed afterwards are read as they were when V was computed (snapshot)
+                        got = member(left, val, depth + 1, True, here)
                         if got is not None:
-                            return got
-            return None if top else atom(f"{left} in {se.id}")
+                            extra_ = []
+                            for call_ in later:
+                                eq = eq_atom(left, call_.args[0])
+                                if eq is None:
+                                    return None
+                                extra_.append(f_and([conds_formula(all_conds(v, call_), subst), eq]))
+                            return f_or([got, *extra_]) if extra_ else got
+            if top:
+                return None
+            return snapshot(left, se.id, at) if at is not None else atom(f"{left} in {se.id}")
         parts: list[tuple[str, ast.AST]] = []
         if isinstance(se, ast.BinOp) and isinstance(se.op, (ast.BitOr, ast.Sub, ast.BitAnd)):
             op = {ast.BitOr: "or", ast.Sub: "sub", ast.BitAnd: "and"}[type(se.op)]
@@ -1005,7 +2356,7 @@ def make_subst(repo: Repo, v: FuncInfo):
             return None
         f: Formula | None = None
         for op, x in parts:
-            g = member(left, x, depth + 1, False)
+            g = member(left, x, depth + 1, False, at)
             if g is None:
                 return None
             f = g if op == "first" else f_or([f, g]) if op == "or" else f_and([f, f_not(g)]) if op == "sub" else f_and([f, g])
@@ -1032,6 +2383,72 @@ def make_subst(repo: Repo, v: FuncInfo):
         return helper(e)
 
     return subst
+
+
+def _later_adds(fn: ast.AST, name: str) -> list[ast.Call] | None:
+    """The `name.add(e)` calls that grow a local set after its binding; None when it is changed in any other way."""
+    out: list[ast.Call] = []
+    for n in ast.walk(fn):
+        if isinstance(n, ast.Call) and isinstance(n.func, ast.Attribute) and isinstance(n.func.value, ast.Name) and n.func.value.id == name:
+            if n.func.attr == "add" and len(n.args) == 1 and not n.keywords:
+                if any(isinstance(a, (ast.For, ast.AsyncFor, ast.While, *_COMPS)) for a in ancestors(n)):
+                    return None  # filled in a loop (a visited set): not a fixed set with a few extra nodes
+                out.append(n)
+            elif n.func.attr in (_GROW | _SHRINK):
+                return None
+        elif isinstance(n, ast.AugAssign) and isinstance(n.target, ast.Name) and n.target.id == name:
+            return None
+    return out
+
+
+def _union_built(fn: ast.AST, params: set[str]) -> dict[str, list[ast.AST]]:
+    """U -> [A, B, C] for locals built as a union of node sets by top-level statements before their first use:
+    `U = set(A)` / `U = set()` / `U = A | B`, then `U.update(B)` / `U |= C`, nothing else ever changes U, and the operands are
+    not changed after they were put in."""
+    single = _single_assignments(fn)
+    mut = _mutation_positions(fn)
+    pos = mut["@pos"]
+    out: dict[str, list[ast.AST]] = {}
+    for u, val in single.items():
+        if u in params:
+            continue
+        st = stmt_of(val) if parent(val) is not None else None
+        if st is None or parent(st) is not fn:
+            continue
+        init = strip(val)
+        if _is_empty_collection(val):
+            comps: list[ast.AST] = []
+        elif isinstance(init, ast.Name) and init is not val and init.id != u:
+            comps = [init]  # a copy
+        else:
+            continue
+        grown: list[tuple[int, ast.AST]] = []
+        ok = True
+        for n in ast.walk(fn):
+            if isinstance(n, ast.Call) and isinstance(n.func, ast.Attribute) and isinstance(n.func.value, ast.Name) and n.func.value.id == u:
+                if n.func.attr == "update" and n.args and not n.keywords and isinstance(parent(n), ast.Expr) and parent(parent(n)) is fn and not any(isinstance(a, ast.Starred) for a in n.args):
+                    grown += [(pos[id(n)], a) for a in n.args]
+                elif n.func.attr in (_GROW | _SHRINK):
+                    ok = False
+            elif isinstance(n, ast.AugAssign) and isinstance(n.target, ast.Name) and n.target.id == u:
+                if isinstance(n.op, ast.BitOr) and parent(n) is fn:
+                    grown.append((pos[id(n)], n.value))
+                else:
+                    ok = False
+        if not ok or not grown:
+            continue
+        last = max(p_ for p_, _ in grown)
+        reads = [pos[id(n)] for n in ast.walk(fn) if isinstance(n, ast.Name) and n.id == u and isinstance(n.ctx, ast.Load) and not (isinstance(parent(n), ast.Attribute) and parent(n).attr == "update")]
+        if any(r <= last for r in reads):
+            continue
+        first = pos.get(id(val), -1)
+        puts = [(first, c) for c in comps] + sorted(grown, key=lambda t: t[0])
+        # an operand may be completed before it is put in, never afterwards
+        if any(mp > put for put, c in puts for x in ast.walk(c) if isinstance(x, ast.Name) for mp in mut.get(x.id, [])):
+            continue
+        comps = [c for _, c in puts]
+        out[u] = comps
+    return out
 
 
 def _mutation_positions(fn: ast.AST) -> dict:
@@ -1130,6 +2547,9 @@ def _iter_elements(e: ast.expr, single: dict[str, ast.expr]) -> list[tuple[ast.A
         return [(c.elt, c)]
     if isinstance(e, ast.BinOp) and isinstance(e.op, (ast.Add, ast.BitOr)):
         return _iter_elements(e.left, single) + _iter_elements(e.right, single)
+    if isinstance(e, ast.IfExp):
+        # either branch (the guards of the elements carry the test)
+        return _iter_elements(e.body, single) + _iter_elements(e.orelse, single)
     return [(e, None)]
 
 
@@ -1139,24 +2559,39 @@ class _Site:
     node: ast.AST  # Call | AugAssign | Assign | AnnAssign | Return
     elements: list[tuple[ast.AST, ast.AST | None]]
     method: str
+    key: ast.AST | None = None
+
+
+def _receiver_of(e: ast.AST) -> tuple[str, ast.AST | None]:
+    """(collection variable, key) of the receiver of a mutation: `R`, `self.r`, `R[k]`, `R.setdefault(k, [])`."""
+    d = dotted(e)
+    if d:
+        return d, None
+    if isinstance(e, ast.Subscript) and isinstance(e.value, ast.Name) and not isinstance(e.slice, ast.Slice):
+        return e.value.id, e.slice
+    if isinstance(e, ast.Call) and isinstance(e.func, ast.Attribute) and e.func.attr == "setdefault" and isinstance(e.func.value, ast.Name) and len(e.args) == 2 and _is_empty_collection(e.args[1]):
+        return e.func.value.id, e.args[0]
+    return "", None
 
 
 def _mutation_sites(fn: ast.AST, single: dict[str, ast.expr], result_vars: set[str]) -> list[_Site]:
     out: list[_Site] = []
     for n in ast.walk(fn):
-        if isinstance(n, ast.Call) and isinstance(n.func, ast.Attribute) and n.func.attr in _ADDERS and dotted(n.func.value):
+        if isinstance(n, ast.Call) and isinstance(n.func, ast.Attribute) and n.func.attr in _ADDERS and _receiver_of(n.func.value)[0]:
             m = n.func.attr
+            recv, key = _receiver_of(n.func.value)
             if m in ("append", "add", "appendleft") and len(n.args) == 1:
-                out.append(_Site(dotted(n.func.value), n, [(n.args[0], None)], m))
+                out.append(_Site(recv, n, [(n.args[0], None)], m, key))
             elif m == "insert" and len(n.args) == 2:
-                out.append(_Site(dotted(n.func.value), n, [(n.args[1], None)], m))
+                out.append(_Site(recv, n, [(n.args[1], None)], m, key))
             elif m in ("extend", "update", "extendleft") and n.args:
                 els: list = []
                 for a in n.args:
                     els += _iter_elements(a, single)
-                out.append(_Site(dotted(n.func.value), n, els, m))
-        elif isinstance(n, ast.AugAssign) and isinstance(n.op, (ast.Add, ast.BitOr)) and dotted(n.target):
-            out.append(_Site(dotted(n.target), n, _iter_elements(n.value, single), "+="))
+                out.append(_Site(recv, n, els, m, key))
+        elif isinstance(n, ast.AugAssign) and isinstance(n.op, (ast.Add, ast.BitOr)) and _receiver_of(n.target)[0]:
+            recv, key = _receiver_of(n.target)
+            out.append(_Site(recv, n, _iter_elements(n.value, single), "+=", key))
         elif isinstance(n, (ast.Assign, ast.AnnAssign)) and n.value is not None:
             tgt = n.targets[0] if isinstance(n, ast.Assign) and len(n.targets) == 1 else getattr(n, "target", None)
             if isinstance(tgt, ast.Name):
@@ -1191,15 +2626,17 @@ def _node_expr_text(e: ast.AST, single: dict[str, ast.expr]) -> str:
 def _worklist_sources(fn: ast.AST, worklist_expr: ast.AST, outer: ast.AST, single: dict[str, ast.expr]) -> tuple[list[str], list[ast.stmt]]:
     """Names of the sets / node expressions a worklist is initialised from, and the initialising statements."""
 
-    def sources_of(e: ast.AST) -> list[str]:
+    def sources_of(e: ast.AST, depth: int = 0) -> list[str]:
         e = strip(e)
         if isinstance(e, (ast.List, ast.Tuple, ast.Set)):
             out: list[str] = []
             for x in e.elts:
-                out += sources_of(x.value) if isinstance(x, ast.Starred) else [_node_expr_text(x, single)]
+                out += sources_of(x.value, depth) if isinstance(x, ast.Starred) else [_node_expr_text(x, single)]
             return out
         if isinstance(e, ast.Call) and isinstance(e.func, ast.Name) and e.func.id == "deque" and e.args:
             return sources_of(e.args[0])
+        if isinstance(e, ast.Name) and e.id in single and isinstance(strip(single[e.id]), (ast.List, ast.Tuple, ast.Set)) and depth < 3:
+            return sources_of(single[e.id], depth + 1)  # `start_nodes = [node]` .. `W = list(start_nodes)`
         return [norm(e)]
 
     base = strip(worklist_expr)
@@ -1278,7 +2715,31 @@ def _is_base_of(call: ast.AST, value: ast.AST) -> bool:
         return _is_base_of(call, v.func.value)
     if isinstance(v, ast.IfExp):
         return _is_base_of(call, v.body) or _is_base_of(call, v.orelse)
+    # `call | E` / `call.union(E)`: the set computed by the call with more put in (what is put in is judged as [exempt set])
+    if isinstance(v, ast.BinOp) and isinstance(v.op, ast.BitOr):
+        return _is_base_of(call, v.left) or _is_base_of(call, v.right)
+    if isinstance(v, ast.Call) and isinstance(v.func, ast.Attribute) and v.func.attr == "union":
+        return _is_base_of(call, v.func.value)
     return False
+
+
+def _addends(value: ast.AST, base: ast.AST) -> list[ast.AST]:
+    """[E..] for `B | E`, `E | B`, `B.union(E, ..)` around the base expression B (nested and wrapped forms included)."""
+    v = strip(value)
+    if v is base:
+        return []
+    if isinstance(v, ast.BinOp) and isinstance(v.op, ast.BitOr):
+        if _is_base_of(base, v.left):
+            return _addends(v.left, base) + [v.right]
+        if _is_base_of(base, v.right):
+            return [v.left] + _addends(v.right, base)
+    if isinstance(v, ast.Call) and isinstance(v.func, ast.Attribute) and v.func.attr == "union" and _is_base_of(base, v.func.value):
+        return _addends(v.func.value, base) + list(v.args)
+    if isinstance(v, ast.BinOp) and isinstance(v.op, ast.Sub):
+        return _addends(v.left, base)
+    if isinstance(v, ast.Call) and isinstance(v.func, ast.Attribute) and v.func.attr == "difference":
+        return _addends(v.func.value, base)
+    return []
 
 
 def _receiving_var(call: ast.AST) -> tuple[str | None, bool]:
@@ -1298,6 +2759,68 @@ def _receiving_var(call: ast.AST) -> tuple[str | None, bool]:
     return None, False
 
 
+def _accumulating_loop(loop: ast.AST) -> ast.AST | None:
+    """The `X.update(t)` / `X |= t` statement of a loop `for t in <sets>: X |= t` whose body does nothing else."""
+    if not (isinstance(loop, ast.For) and isinstance(loop.target, ast.Name) and len(loop.body) == 1 and not loop.orelse):
+        return None
+    st = loop.body[0]
+    t = loop.target.id
+    if isinstance(st, ast.AugAssign) and isinstance(st.op, ast.BitOr) and isinstance(st.target, ast.Name) and isinstance(st.value, ast.Name) and st.value.id == t:
+        return st
+    if isinstance(st, ast.Expr) and isinstance(st.value, ast.Call) and isinstance(st.value.func, ast.Attribute) and st.value.func.attr == "update" and isinstance(st.value.func.value, ast.Name) and len(st.value.args) == 1 and isinstance(st.value.args[0], ast.Name) and st.value.args[0].id == t:
+        return st
+    return None
+
+
+def _flattened_into(fn: ast.AST, name: str) -> tuple[str | None, list[ast.stmt]]:
+    """The node set a collection of node sets `name` is united into: `X = set().union(*name)`, `X.update(*name)`, `X |= set().union(*name)`,
+    `X = set(chain.from_iterable(name))`, `X = {n for t in name for n in t}`, `X = reduce(<union>, name, set())`. None unless every use
+    of `name` is such a flattening into one and the same variable."""
+    targets: set[str | None] = set()
+    stmts: list[ast.stmt] = []
+    for n in ast.walk(fn):
+        if not (isinstance(n, ast.Name) and n.id == name and isinstance(n.ctx, ast.Load)):
+            continue
+        par = parent(n)
+        flat = None
+        if isinstance(par, ast.Starred):
+            call = parent(par)
+            if isinstance(call, ast.Call) and isinstance(call.func, ast.Attribute) and call.func.attr in ("union", "update") and any(a is par for a in call.args):
+                flat = call
+            elif isinstance(call, ast.Call) and dotted(call.func).split(".")[-1] == "chain":
+                flat = call
+        elif isinstance(par, ast.Call) and any(a is n for a in par.args):
+            fname = dotted(par.func).split(".")[-1]
+            if fname == "from_iterable" or (fname == "reduce" and len(par.args) >= 2 and par.args[1] is n):
+                flat = par
+        elif isinstance(par, ast.Attribute) and par.attr == "values" and isinstance(parent(par), ast.Call) and not parent(par).args and isinstance(parent(parent(par)), (ast.For, ast.comprehension)) and parent(parent(par)).iter is parent(par):
+            # `for t in trees.values(): X |= t`
+            flat = _accumulating_loop(parent(parent(par)))
+        elif isinstance(par, ast.For) and par.iter is n:
+            flat = _accumulating_loop(par)
+        elif isinstance(par, ast.comprehension) and par.iter is n and isinstance(par.target, ast.Name):
+            comp = parent(par)
+            if isinstance(comp, _COMPS) and len(comp.generators) == 2 and comp.generators[0] is par:
+                g2 = comp.generators[1]
+                if isinstance(g2.iter, ast.Name) and g2.iter.id == par.target.id and isinstance(g2.target, ast.Name) and isinstance(comp.elt, ast.Name) and comp.elt.id == g2.target.id and not par.ifs and not g2.ifs:
+                    flat = comp
+        if flat is None:
+            return None, []
+        st = stmt_of(flat)
+        stmts.append(st)
+        tgt = None
+        if isinstance(st, ast.Assign) and len(st.targets) == 1 and isinstance(st.targets[0], ast.Name):
+            tgt = st.targets[0].id
+        elif isinstance(st, (ast.AnnAssign, ast.AugAssign)) and isinstance(st.target, ast.Name):
+            tgt = st.target.id
+        elif isinstance(st, ast.Expr) and isinstance(st.value, ast.Call) and isinstance(st.value.func, ast.Attribute) and isinstance(st.value.func.value, ast.Name) and st.value.func.attr == "update":
+            tgt = st.value.func.value.id
+        targets.add(tgt)
+    if len(targets) == 1:
+        return next(iter(targets)), stmts
+    return None, []
+
+
 def _subtree_sites(m: SearchModel, single: dict[str, ast.expr]) -> list[SubtreeSite]:
     fn = m.fi.node
     params = m.fi.param_names
@@ -1308,7 +2831,17 @@ def _subtree_sites(m: SearchModel, single: dict[str, ast.expr]) -> list[SubtreeS
         arg_e = c.args[1] if len(c.args) == 2 else next((k.value for k in c.keywords if k.arg not in (None, "graph")), None)
         arg = dotted(arg_e) if arg_e is not None else ""
         target, assigned = _receiving_var(c)
+        if target is not None and not assigned and target in single and ((isinstance(strip(single[target]), _COMPS) and strip(single[target]).elt is c) or (isinstance(single[target], ast.DictComp) and single[target].value is c)):
+            # `trees = (get_all_submodules_of(graph, m) for m in P)`: a collection of sub-trees, not a node set; the node set is
+            # what the collection is flattened into (`X = set().union(*trees)`, `X.update(*trees)`, `{n for t in trees for n in t}`)
+            holder = target
+            target, fills = _flattened_into(fn, target)
+            if target is None and isinstance(single[holder], ast.DictComp):
+                target = holder  # not united into one node set: a sub-tree per key (see _keyed_by_object)
+        else:
+            fills = []
         site = SubtreeSite(c, arg, None, None, [], target, assigned, None)
+        site.fills = fills
         bl = _binding_loop(arg, c) if arg else None
         if bl is not None:
             site.loop = bl[0]
@@ -1668,15 +3201,18 @@ def build(repo: Repo, fi: FuncInfo) -> SearchModel | None:
             k = "record"
         else:
             continue
-        model.events.append(Event(k, s.node, norm(elt), g, text, it_ is not None, elt, it_.var if it_ is not None else None, s.receiver))
+        model.events.append(Event(k, s.node, norm(elt), g, text, it_ is not None, elt, it_.var if it_ is not None else None, s.receiver, s.key))
 
     # ---- parameters and sets
     _classify_params(model, single)
     model.subtree_sites = _subtree_sites(model, single)
+    model.node_maps = _node_maps(model)
     for st in model.subtree_sites:
         key = st.target if st.target is not None else norm(st.call)
         if st.param is not None and (st.assigned or st.target is None):
             model.submodule_sets.setdefault(key, st.param)
+        elif st.collection is not None and st.target is not None and _keyed_by_object(st):
+            model.subtree_maps.setdefault(st.target, st.collection)  # one sub-tree per object, not their union
         elif st.collection is not None and st.target is not None:
             model.accumulated_sets.setdefault(st.target, st.collection)
     for n in ast.walk(fn):
@@ -1686,32 +3222,300 @@ def build(repo: Repo, fi: FuncInfo) -> SearchModel | None:
         elif isinstance(n, ast.AnnAssign) and isinstance(n.target, ast.Name) and n.value is not None:
             tgt, val = n.target.id, n.value
         if tgt is not None:
-            ids = _parent_ids(val, v.param_names, {k: x for k, x in single.items() if k != tgt})
+            ids = _parent_ids(val, v.param_names + _object_vars(model), {k: x for k, x in single.items() if k != tgt})
             if ids is not None:
                 model.parent_id_sets[tgt] = ids
     _loop_built_parent_ids(model, sites, single)
+    if kind != "while":
+        # `for n in reversed(list(own))`: the iterated set is itself the start set (not the expression it was computed by)
+        wl_base = strip(wl_expr)
+        if isinstance(wl_base, ast.Name) and (wl_base.id in model.submodule_sets or wl_base.id in model.accumulated_sets):
+            model.worklist_sources = [wl_base.id]
     for n in ast.walk(fn):
         if isinstance(n, ast.Call) and isinstance(n.func, ast.Attribute) and n.func.attr in ("add", "remove", "discard") and len(n.args) == 1 and dotted(n.func.value):
             recv = dotted(n.func.value)
             if recv in model.submodule_sets or recv in model.accumulated_sets:
                 model.set_ops.append(SetOp("add" if n.func.attr == "add" else "remove", recv, _node_expr_text(n.args[0], single), n, model.guard_of(n)))
+        # `S -= {f.identifier for f in P if f.identifier_is_parent_module}` / `S.difference_update(..)`: one removal per element
+        recv = removed = None
+        if isinstance(n, ast.AugAssign) and isinstance(n.op, ast.Sub) and isinstance(n.target, ast.Name):
+            recv, removed = n.target.id, [n.value]
+        elif isinstance(n, ast.Call) and isinstance(n.func, ast.Attribute) and n.func.attr == "difference_update" and isinstance(n.func.value, ast.Name) and n.args and not n.keywords:
+            recv, removed = n.func.value.id, list(n.args)
+        elif isinstance(n, (ast.Assign, ast.AnnAssign)) and n.value is not None and isinstance(n.targets[0] if isinstance(n, ast.Assign) and len(n.targets) == 1 else getattr(n, "target", None), ast.Name):
+            # `S = S - {..}` / `S = get_all_submodules_of(..) - {..}` / `S = S.difference(..)`
+            removed = _subtrahends(n.value)
+            recv = (n.targets[0] if isinstance(n, ast.Assign) else n.target).id if removed else None
+        if recv is not None and (recv in model.submodule_sets or recv in model.accumulated_sets):
+            for r_ in removed:
+                if _is_empty_collection(r_):
+                    continue
+                r_ids = _parent_ids(r_, v.param_names, single)
+                if r_ids is not None:
+                    # the parent-module identifiers of a literal sequence of filter parameters
+                    for p_ in r_ids:
+                        model.set_ops.append(SetOp("remove", recv, f"{p_}.{NODE_ATTR}", n, f_and([model.guard_of(n), atom(f"bool({p_}.{PARENT_FLAG})")])))
+                    continue
+                for elt, comp in _iter_elements(r_, single):
+                    if _is_empty_collection(elt):
+                        continue
+                    cs_ = all_conds(v, elt) + ([] if any(a is n for a in ancestors(elt)) else all_conds(v, n))
+                    model.set_ops.append(SetOp("remove", recv, _node_expr_text(elt, single), n, conds_formula(cs_, model.subst)))
 
     # ---- role
     if fi.name == SUBMODULES:
         model.role = "submodules"
-    elif model.accumulated_sets or model.collection_params:
+    elif model.accumulated_sets or (model.collection_params and not _starts_from_filter_nodes(model)):
         model.role = "other"
     else:
+        # also the batched form: one walk from the subject's node for a whole collection of objects
         model.role = "explicit"
     _subject_object(model)
     return model
+
+
+def _map_lookup(m: SearchModel, e: ast.AST) -> tuple[NodeMap, ast.AST] | None:
+    """(node map D, looked-up node expression) for `D[x]` / `D.get(x)` / `D.get(x, <empty>)`."""
+    e = strip(e)
+    if isinstance(e, ast.Subscript) and isinstance(e.value, ast.Name) and e.value.id in m.node_maps and not isinstance(e.slice, ast.Slice):
+        return m.node_maps[e.value.id], e.slice
+    if isinstance(e, ast.Call) and isinstance(e.func, ast.Attribute) and e.func.attr == "get" and isinstance(e.func.value, ast.Name) and e.func.value.id in m.node_maps and e.args and not e.keywords:
+        return m.node_maps[e.func.value.id], e.args[0]
+    return None
+
+
+def _keyed_by_object(st: SubtreeSite) -> bool:
+    """The looked-up sub-tree is stored under its object: `{o: get_all_submodules_of(g, o) for o in P}` / `T[o] = get_all_submodules_of(g, o)`."""
+    par = parent(st.call)
+    if isinstance(par, ast.DictComp) and par.value is st.call and isinstance(par.key, ast.Name) and par.key.id == st.arg and not st.fills:
+        return True
+    if isinstance(par, ast.Assign) and par.value is st.call and len(par.targets) == 1 and isinstance(par.targets[0], ast.Subscript) and isinstance(par.targets[0].slice, ast.Name) and par.targets[0].slice.id == st.arg:
+        return True
+    return False
+
+
+def _objects_loop(m: SearchModel, loop: ast.AST) -> tuple[str, str | None] | None:
+    """(object variable, variable holding its sub-tree | None) for a loop over all objects of a search that answers for a collection
+    of objects: `for o in P`, `for o in T` / `T.keys()`, `for o, tree in T.items()` (P the collection parameter, T a sub-tree map)."""
+    if not isinstance(loop, (ast.For, ast.AsyncFor)):
+        return None
+    it = strip(loop.iter)
+    how = None
+    if isinstance(it, ast.Call) and isinstance(it.func, ast.Attribute) and it.func.attr in ("items", "keys") and not it.args and isinstance(it.func.value, ast.Name) and it.func.value.id in m.subtree_maps:
+        how = it.func.attr
+    elif isinstance(it, ast.Name) and (it.id in m.subtree_maps or it.id in m.collection_params):
+        how = "keys"
+    if how == "items" and isinstance(loop.target, ast.Tuple) and len(loop.target.elts) == 2 and all(isinstance(x, ast.Name) for x in loop.target.elts):
+        return loop.target.elts[0].id, loop.target.elts[1].id
+    if how == "keys" and isinstance(loop.target, ast.Name):
+        return loop.target.id, None
+    return None
+
+
+def each_object(m: SearchModel, ev: Event) -> tuple[str, list[str], ast.AST] | None:
+    """(object variable, texts of the sets that hold its sub-tree, the loop) when the event sits, inside the neighbour iteration,
+    in a loop over all objects and is filed under the loop's object."""
+    if not isinstance(ev.key, ast.Name):
+        return None
+    nv = ev.nvar or m.neighbour_var
+    it = next((i for i in m.neighbour_iters if i.var == nv and i.gen is None and _inside_body(ev.call, i.node)), None)
+    for a in ancestors(ev.call):
+        if it is not None and a is it.node:
+            break
+        got = _objects_loop(m, a)
+        if got is not None and got[0] == ev.key.id:
+            k, tree = got
+            sets = [f"{t}[{k}]" for t in m.subtree_maps] + ([tree] if tree else [])
+            return k, sets, a
+    return None
+
+
+def _object_vars(m: SearchModel) -> list[str]:
+    """Locals that hold an object of a search answering for a collection of objects: looked up in a node map (`o = D[n]`,
+    `for o in D[n]`) or bound by a loop over all objects (`for o in P`, `for o, tree in T.items()`)."""
+    out: list[str] = []
+    for n in ast.walk(m.fi.node):
+        tgt = val = None
+        if isinstance(n, ast.Assign) and len(n.targets) == 1 and isinstance(n.targets[0], ast.Name):
+            tgt, val = n.targets[0].id, n.value
+        elif isinstance(n, (ast.For, ast.AsyncFor, ast.comprehension)) and isinstance(n.target, ast.Name):
+            tgt, val = n.target.id, n.iter
+        if tgt is not None and _map_lookup(m, val) is not None and tgt not in out and tgt not in m.fi.param_names:
+            out.append(tgt)
+        got = _objects_loop(m, n) if any(isinstance(a, (ast.For, ast.AsyncFor, ast.While)) for a in ancestors(n)) else None
+        if got is not None and got[0] not in out and got[0] not in m.fi.param_names:
+            out.append(got[0])
+    return out
+
+
+def filed_under(m: SearchModel, ev: Event) -> tuple[str | None, NodeMap | None, str]:
+    """Which object a recorded pair is filed under, for a search that answers for a whole collection of objects at once:
+    (variable holding the object, node map it was looked up in, how) with how =
+      "lookup"  `o = D[neighbour]` / `R[D[neighbour]]`: the one object the map keeps for the node
+      "loop"    `for o in D[neighbour]`: every object the map keeps for the node
+      ""        not recognised"""
+    if ev.key is None:
+        return None, None, ""
+    nv = ev.nvar or m.neighbour_var
+    got = _map_lookup(m, ev.key)
+    if got is not None:
+        return None, got[0], "lookup" if norm(got[1]) == nv else ""
+    if not isinstance(ev.key, ast.Name):
+        return None, None, ""
+    k = ev.key.id
+    it = next((i for i in m.neighbour_iters if i.var == nv and i.gen is None and _inside_body(ev.call, i.node)), None)
+    scope = it.node if it is not None else m.loop
+    # a loop over the map entry that encloses the event
+    for a in ancestors(ev.call):
+        if a is scope:
+            break
+        if isinstance(a, (ast.For, ast.AsyncFor)) and isinstance(a.target, ast.Name) and a.target.id == k:
+            got = _map_lookup(m, a.iter)
+            return k, (got[0] if got else None), ("loop" if got and norm(got[1]) == nv else "")
+    stores = [n for n in ast.walk(scope) if isinstance(n, ast.Name) and n.id == k and isinstance(n.ctx, ast.Store)]
+    if len(stores) == 1 and isinstance(parent(stores[0]), ast.Assign) and len(parent(stores[0]).targets) == 1:
+        st = parent(stores[0])
+        got = _map_lookup(m, st.value)
+        if got is not None and cfg_of(m.fi).dominates(st, stmt_of(ev.call)):
+            return k, got[0], "lookup" if norm(got[1]) == nv else ""
+    return k, None, ""
+
+
+def _starts_from_filter_nodes(m: SearchModel) -> bool:
+    """The worklist is seeded with the node(s) of single module-filter parameters (`[dependent.identifier]`), not with a node set."""
+    return m.outer_kind == "while" and bool(m.worklist_sources) and all(any(s_ == f"{p}.{NODE_ATTR}" for p in m.filter_params) for s_ in m.worklist_sources)
+
+
+def _mapping_annotation(ann: ast.AST) -> tuple[str, str] | None:
+    """(key type, value type) as text for `Mapping[K, V]` / `dict[K, V]` / `Dict[K, V]` / `defaultdict[K, V]` (also Optional / quoted)."""
+    if isinstance(ann, ast.Constant) and isinstance(ann.value, str):
+        try:
+            ann = ast.parse(ann.value, mode="eval").body
+        except SyntaxError:
+            return None
+    if isinstance(ann, ast.BinOp) and isinstance(ann.op, ast.BitOr):
+        return _mapping_annotation(ann.left) or _mapping_annotation(ann.right)
+    if isinstance(ann, ast.Subscript) and norm(ann.value).split(".")[-1] == "Optional":
+        return _mapping_annotation(ann.slice)
+    if isinstance(ann, ast.Subscript) and norm(ann.value).split(".")[-1] in ("Mapping", "MutableMapping", "dict", "Dict", "defaultdict", "DefaultDict", "OrderedDict") and isinstance(ann.slice, ast.Tuple) and len(ann.slice.elts) == 2:
+        return norm(ann.slice.elts[0]), norm(ann.slice.elts[1])
+    return None
+
+
+def _caller_built_map(m: SearchModel, param: str) -> bool | None:
+    """How the callers of the search build the node -> object lookup they hand in for `param`: True = one object per node
+    (`{n: o for o in objects for n in get_all_submodules_of(g, o)}`, `D[n] = o`), False = all of them (`D[n].append(o)`,
+    `D.setdefault(n, []).append(o)`); None when no caller builds it in a way the model reads."""
+    repo = m.fi.module.repo  # type: ignore[attr-defined]
+    base = m.base or m.fi
+    idx = base.param_names.index(param) if param in base.param_names else -1
+    verdicts: list[bool] = []
+    for mod in repo.modules.values():
+        for f in mod.all_funcs:
+            if isinstance(f.node, ast.Lambda):
+                continue
+            for c in own_nodes(f.node):
+                if not (isinstance(c, ast.Call) and dotted(c.func).split(".")[-1] == base.name):
+                    continue
+                arg = next((k.value for k in c.keywords if k.arg == param), c.args[idx] if 0 <= idx < len(c.args) else None)
+                if not isinstance(arg, (ast.Name, ast.DictComp)):
+                    return None
+                comp = arg
+                if isinstance(arg, ast.Name):
+                    vals = [n.value for n in own_nodes(f.node) if isinstance(n, ast.Assign) and len(n.targets) == 1 and isinstance(n.targets[0], ast.Name) and n.targets[0].id == arg.id] + [n.value for n in own_nodes(f.node) if isinstance(n, ast.AnnAssign) and isinstance(n.target, ast.Name) and n.target.id == arg.id and n.value is not None]
+                    if len(vals) != 1:
+                        return None
+                    comp = vals[0]
+                    writes = [n for n in own_nodes(f.node) if isinstance(n, ast.Subscript) and isinstance(n.value, ast.Name) and n.value.id == arg.id]
+                    if not isinstance(comp, ast.DictComp):
+                        # built by statements: `D[n] = o` (one object) vs `D[n].append(o)` / `D.setdefault(n, []).append(o)` (all of them)
+                        stores = [w for w in writes if isinstance(w.ctx, ast.Store)]
+                        appends = [n for n in own_nodes(f.node) if isinstance(n, ast.Call) and isinstance(n.func, ast.Attribute) and n.func.attr in ("append", "add") and _receiver_of(n.func.value)[0] == arg.id and _receiver_of(n.func.value)[1] is not None]
+                        if stores and not appends and all(isinstance(parent(w), ast.Assign) and isinstance(parent(w).value, ast.Name) for w in stores):
+                            verdicts.append(True)
+                            continue
+                        if appends and not stores:
+                            verdicts.append(False)
+                            continue
+                        return None
+                    if any(isinstance(w.ctx, (ast.Store, ast.Del)) for w in writes):
+                        return None
+                if not isinstance(comp, ast.DictComp) or not any(isinstance(x, ast.Call) and isinstance(x.func, ast.Name) and x.func.id == SUBMODULES for g in comp.generators for x in ast.walk(g.iter)):
+                    return None
+                # {node: o ..}: one object per node unless the value collects
+                verdicts.append(isinstance(comp.value, ast.Name))
+    if not verdicts or len(set(verdicts)) != 1:
+        return None
+    return verdicts[0]
+
+
+def _node_maps(m: SearchModel) -> dict[str, NodeMap]:
+    out: dict[str, NodeMap] = {}
+    fn = m.fi.node
+    for st in m.subtree_sites:
+        if st.param is None and st.collection is None:
+            continue
+        par = parent(st.call)
+        tvar = None
+        body: list[ast.AST] = []
+        if isinstance(par, (ast.For, ast.AsyncFor)) and par.iter is st.call and isinstance(par.target, ast.Name):
+            tvar, body = par.target.id, list(par.body)
+        elif isinstance(par, ast.comprehension) and par.iter is st.call and isinstance(par.target, ast.Name) and isinstance(parent(par), ast.DictComp):
+            dc = parent(par)
+            if isinstance(dc.key, ast.Name) and dc.key.id == par.target.id and isinstance(dc.value, ast.Name) and dc.value.id == st.arg:
+                recv, _ = _receiving_var(dc)
+                if recv is not None:
+                    out[recv] = NodeMap(recv, st.collection, st.param, True, dc)
+            continue
+        if tvar is None:
+            continue
+        for b in body:
+            for n in ast.walk(b):
+                if isinstance(n, ast.Assign) and len(n.targets) == 1 and isinstance(n.targets[0], ast.Subscript) and isinstance(n.targets[0].value, ast.Name) and isinstance(n.targets[0].slice, ast.Name) and n.targets[0].slice.id == tvar and isinstance(n.value, ast.Name) and n.value.id == st.arg:
+                    out[n.targets[0].value.id] = NodeMap(n.targets[0].value.id, st.collection, st.param, True, n)
+                elif isinstance(n, ast.Call) and isinstance(n.func, ast.Attribute) and n.func.attr in ("append", "add") and len(n.args) == 1 and isinstance(n.args[0], ast.Name) and n.args[0].id == st.arg:
+                    recv, key = _receiver_of(n.func.value)
+                    if recv and isinstance(key, ast.Name) and key.id == tvar:
+                        out[recv] = NodeMap(recv, st.collection, st.param, False, n)
+    # a lookup built by the caller and handed in: `objects_by_node: Mapping[AbstractNode, ModuleFilter]`
+    for a in m.fi.params:
+        if a.arg in out or a.arg == m.graph or a.annotation is None:
+            continue
+        got = _mapping_annotation(a.annotation)
+        if got is None or "ModuleFilter" not in got[1]:
+            continue
+        single = not any(t in got[1] for t in ("[", "list", "set", "tuple", "Sequence", "Iterable", "Collection"))
+        built = _caller_built_map(m, a.arg)
+        if built is not None:
+            single = built
+        out[a.arg] = NodeMap(a.arg, a.arg, None, single, a)
+        out[a.arg].from_caller = built is not None  # type: ignore[attr-defined]
+    # a map is only what the model says when nothing else writes to it
+    for name in list(out):
+        nm = out[name]
+        for n in ast.walk(fn):
+            writes = (isinstance(n, ast.Subscript) and isinstance(n.value, ast.Name) and n.value.id == name and isinstance(n.ctx, (ast.Store, ast.Del))) or (isinstance(n, ast.Call) and isinstance(n.func, ast.Attribute) and isinstance(n.func.value, ast.Name) and n.func.value.id == name and n.func.attr in ("update", "pop", "popitem", "clear", "setdefault", "__setitem__"))
+            if writes and not any(a is nm.store or a is stmt_of(nm.store) for a in [n, *ancestors(n)]):
+                out.pop(name, None)
+                break
+    return out
+
+
+def _subtrahends(value: ast.AST) -> list[ast.AST]:
+    """[E..] for `X - E`, `X.difference(E, ..)`, also nested (`X - E1 - E2`) and wrapped (`set(X - E)`)."""
+    v = strip(value)
+    if isinstance(v, ast.BinOp) and isinstance(v.op, ast.Sub):
+        return _subtrahends(v.left) + [v.right]
+    if isinstance(v, ast.Call) and isinstance(v.func, ast.Attribute) and v.func.attr == "difference" and v.args and not v.keywords:
+        return _subtrahends(v.func.value) + list(v.args)
+    return []
 
 
 def _is_empty_collection(e: ast.AST) -> bool:
     e = strip(e)
     if isinstance(e, (ast.List, ast.Tuple)) and not e.elts:
         return True
-    return isinstance(e, ast.Call) and isinstance(e.func, ast.Name) and e.func.id in ("set", "list") and not e.args and not e.keywords
+    return isinstance(e, ast.Call) and isinstance(e.func, ast.Name) and e.func.id in ("set", "list", "frozenset", "tuple") and not e.args and not e.keywords
 
 
 def _loop_built_parent_ids(m: SearchModel, sites: list, single: dict[str, ast.expr]) -> None:
@@ -1802,7 +3606,7 @@ def _subject_object(m: SearchModel) -> None:
         if len(seeds) == 1:
             m.subject_param = seeds[0]
             rest = [p for p in m.filter_params if p != seeds[0]]
-            m.object_param = rest[0] if len(rest) == 1 else None
+            m.object_param = rest[0] if len(rest) == 1 else m.collection_params[0] if not rest and len(m.collection_params) == 1 else None
     else:
         m.subject_param = m.filter_params[0] if len(m.filter_params) == 1 else None
 
@@ -1977,6 +3781,114 @@ def opaque_set(m: SearchModel, name: str) -> bool:
     return False
 
 
+# --------------------------------------------------------------------------- where the elements of a node collection come from
+
+
+_PURE_BUILTINS = _WRAPPERS | {"len", "range", "enumerate", "zip", "str", "map", "filter", "min", "max", "any", "all", "isinstance", "dict", "deque", "chain", "get_node", "bool", "int", "next", "sum"}
+_STR_METHODS = _NAME_METHODS | {"join", "strip", "lstrip", "rstrip", "lower", "upper", "format", "replace", "splitlines", "isidentifier", "keys", "values", "items", "get", "copy", "union", "difference", "intersection", "append", "add", "extend", "update", "insert", "pop"}
+
+
+def provenance(m: SearchModel, e: ast.AST, stop: set[str] | None = None) -> set[str]:
+    """Leaves the value of a node-collection expression is computed from, following the local definitions, mutations and loop
+    bindings of the names it mentions: "filter:<p>" (identifier / parent flag of a module-filter parameter), "const",
+    "subtree" (a get_all_submodules_of call), "graph" (any use of the graph), "param:<x>" (another parameter as a whole),
+    "call:<f>" (a call the view could not look into), "derived" (a string operation - slicing, splitting, joining, formatting -
+    is involved), "known:<s>" (one of the sets named in `stop`, not followed further).  A set whose leaves are only filters, constants and string operations is computed from *names alone*."""
+    fn = m.fi.node
+    params = set(m.fi.param_names)
+    out: set[str] = set()
+    seen: set[str] = set()
+
+    defs: dict[str, list[ast.AST]] = {}
+    for n in ast.walk(fn):
+        if isinstance(n, ast.Assign):
+            for t in n.targets:
+                for x in ast.walk(t):
+                    if isinstance(x, ast.Name):
+                        defs.setdefault(x.id, []).append(n.value)
+        elif isinstance(n, (ast.AnnAssign, ast.AugAssign)) and n.value is not None and isinstance(n.target, ast.Name):
+            defs.setdefault(n.target.id, []).append(n.value)
+        elif isinstance(n, ast.NamedExpr):
+            defs.setdefault(n.target.id, []).append(n.value)
+        elif isinstance(n, (ast.For, ast.AsyncFor, ast.comprehension)):
+            for x in ast.walk(n.target):
+                if isinstance(x, ast.Name):
+                    defs.setdefault(x.id, []).append(n.iter)
+        elif isinstance(n, ast.Call) and isinstance(n.func, ast.Attribute) and isinstance(n.func.value, ast.Name) and n.func.attr in (_GROW | {"setdefault"}):
+            for a in n.args:
+                defs.setdefault(n.func.value.id, []).append(a)
+        elif isinstance(n, ast.withitem) and n.optional_vars is not None:
+            for x in ast.walk(n.optional_vars):
+                if isinstance(x, ast.Name):
+                    defs.setdefault(x.id, []).append(n.context_expr)
+
+    def visit(x: ast.AST) -> None:
+        if isinstance(x, ast.Constant):
+            out.add("const")
+            return
+        if isinstance(x, ast.Attribute) and isinstance(x.value, ast.Name) and x.value.id in params and x.attr in (NODE_ATTR, PARENT_FLAG, "identifier_is_regex"):
+            out.add(f"filter:{x.value.id}")
+            return
+        if isinstance(x, ast.Name):
+            if stop and x.id in stop:
+                out.add(f"known:{x.id}")  # a set the caller knows: what it is made of is not this expression's business
+            elif x.id == m.graph:
+                out.add("graph")
+            elif x.id in params:
+                out.add(f"filter:{x.id}" if x.id in m.filter_params or x.id in m.collection_params else f"param:{x.id}")
+            elif x.id in defs:
+                if x.id not in seen:
+                    seen.add(x.id)
+                    for d in defs[x.id]:
+                        visit(d)
+            elif x.id not in _PURE_BUILTINS and not isinstance(x.ctx, ast.Store):
+                out.add("const")  # a module-level constant
+            return
+        if isinstance(x, ast.Call):
+            if isinstance(x.func, ast.Name) and x.func.id == SUBMODULES:
+                out.add("subtree")
+                return
+            if isinstance(x.func, ast.Attribute) and x.func.attr in (SUCC, PRED, HIER):
+                out.add("graph")
+                return
+            if isinstance(x.func, ast.Name):
+                # a class of the library (Module(identifier=..)) only wraps its arguments; any other unknown call is opaque
+                if x.func.id in defs:
+                    visit(x.func)
+                elif x.func.id not in _PURE_BUILTINS and not x.func.id[:1].isupper():
+                    out.add(f"call:{x.func.id}")
+            elif isinstance(x.func, ast.Attribute):
+                if x.func.attr not in _STR_METHODS:
+                    out.add(f"call:{norm(x.func)}")
+                elif x.func.attr in (_NAME_METHODS | {"join", "format", "replace"}):
+                    out.add("derived")
+                visit(x.func.value)
+            else:
+                visit(x.func)
+            for a in x.args:
+                visit(a)
+            for k in x.keywords:
+                visit(k.value)
+            return
+        if isinstance(x, ast.Lambda):
+            visit(x.body)
+            return
+        if isinstance(x, ast.JoinedStr) or (isinstance(x, ast.Subscript) and isinstance(x.slice, ast.Slice)) or (isinstance(x, ast.BinOp) and isinstance(x.op, (ast.Add, ast.Mod))):
+            out.add("derived")
+        for c in ast.iter_child_nodes(x):
+            if isinstance(c, (ast.expr, ast.comprehension, ast.keyword)):
+                visit(c)
+
+    visit(e)
+    return out
+
+
+def names_only(prov: set[str]) -> bool:
+    """Computed from the names of the module filters by string operations - and from nothing else (not the filters' own nodes
+    as they are, not anything looked up in the graph)."""
+    return "derived" in prov and all(x in ("const", "derived") or x.startswith("filter:") for x in prov) and any(x.startswith("filter:") for x in prov)
+
+
 # --------------------------------------------------------------------------- early exits
 
 
@@ -2121,9 +4033,11 @@ def first_iteration_lookup(m: SearchModel, p: str) -> tuple[bool, str]:
     val = strip(init.value)
     if isinstance(val, ast.Call) and isinstance(val.func, ast.Name) and val.func.id == "deque" and val.args:
         val = strip(val.args[0])
+    single = _single_assignments(v.node)
+    if isinstance(val, ast.Name) and val.id in single and val.id not in v.param_names and isinstance(strip(single[val.id]), (ast.List, ast.Tuple)) and cfg.dominates(stmt_of(single[val.id]), init) and len(_mutation_positions(v.node).get(val.id, [])) <= 1:
+        val = strip(single[val.id])  # `start_nodes = [node]` .. `W = list(start_nodes)`
     if not (isinstance(val, (ast.List, ast.Tuple)) and val.elts and not any(isinstance(x, ast.Starred) for x in val.elts)):
         return False, f"the worklist starts as `{norm(init.value)}`, not as a non-empty literal list"
-    single = _single_assignments(v.node)
     if node_text not in [_node_expr_text(x, single) for x in val.elts]:
         return False, f"the node of `{p}` is not in the initial worklist `{norm(init.value)}`"
     if not cfg.dominates(init, m.loop):
@@ -2166,6 +4080,11 @@ def lookup_facts(repo: Repo) -> list[LookupFact]:
         cfg = cfg_of(v)
         for p in v.param_names:
             if p == m.graph or (p not in m.filter_params and p not in m.collection_params):
+                continue
+            if p in m.node_maps and m.node_maps[p].collection == p:
+                # a node -> object lookup handed in: its keys were looked up by whoever built it
+                if getattr(m.node_maps[p], "from_caller", False):
+                    out.append(LookupFact(m, p, True, f"`{p}` is built by the caller from {SUBMODULES}(graph, object) for every object (raising for an unknown module)", "elements"))
                 continue
             if p in m.collection_params:
                 subj = m.subject_param
